@@ -1,118 +1,1473 @@
-"""C18 - checkpoints round-trip and a restarted run continues the original one."""
+"""C18 - checkpoints round-trip and a restarted run continues the original one.
+
+Everything here is decided from the syntax tree; no code of the repository is run, concretely or symbolically.
+* Functions are analysed on a work copy (`_work`): with-blocks spliced, simple nested helper functions written back at
+  their calls; expressions are compared with local single definitions written out (`_Defs.resolve`), so temporaries,
+  aliases and the order of independent statements do not matter.
+* W1 (HDF5 agreement): recognised forms of the hyperslab, attribute, guard, look-up.
+* W2 (file names): name expressions become templates (literal text + fields with format specs, `_template`); the rules
+  compare templates (family, zero padding, glob pattern), classify the selection expression (max / min / by date / listing
+  order) and the way a requested time is detected (presence / noneness / truth value).
+* G3-printer: classification of the attribute source, filters, entry template and frame of `__str__`.
+* W3 save steps: the two conditions as congruences on the global step index.
+* G3-setters-commute and G4-zero-divisor are write-set / flow analyses.
+Every recogniser is three-valued: HOLDS for a recognised correct form, VIOLATED only for a recognised wrong form, else UNDECIDED.
+"""
 from __future__ import annotations
 
 import ast
 import re
+import string
 
-from ..core import src, AnalysisError, parent, guards_of, same_expr, contains
+from ..core import src, AnalysisError, parent, guards_of, same_expr, increment_of
 from .. import units as U
 
 
+# =========================================================================================================
+# working copies of functions
+# =========================================================================================================
+_POS = ("lineno", "col_offset", "end_lineno", "end_col_offset")
+
+
+def _clone(node):
+    """copy of a syntax tree without the parent links (positions kept)"""
+    if isinstance(node, ast.AST):
+        new = node.__class__()
+        for f in node._fields:
+            if hasattr(node, f):
+                setattr(new, f, _clone(getattr(node, f)))
+        for a in _POS:
+            if hasattr(node, a):
+                setattr(new, a, getattr(node, a))
+        return new
+    if isinstance(node, list):
+        return [_clone(x) for x in node]
+    return node
+
+
+def _link(root):
+    root._parent = None
+    for node in ast.walk(root):
+        for ch in ast.iter_child_nodes(node):
+            ch._parent = node
+
+
+def _own_walk(fn):
+    """nodes of a function body without the bodies of nested functions / classes / lambdas"""
+    stack = list(reversed(fn.body)) if isinstance(fn, (ast.FunctionDef, ast.AsyncFunctionDef)) else [fn]
+    while stack:
+        n = stack.pop()
+        yield n
+        if isinstance(n, (ast.FunctionDef, ast.AsyncFunctionDef, ast.ClassDef, ast.Lambda)):
+            continue
+        stack.extend(reversed(list(ast.iter_child_nodes(n))))
+
+
+def _blocks_of(node):
+    for n in ast.walk(node):
+        for f in ("body", "orelse", "finalbody"):
+            b = getattr(n, f, None)
+            if isinstance(b, list) and b and isinstance(b[0], ast.stmt):
+                yield n, f, b
+
+
+def _splice_with(fn):
+    """`with ctx as name: body`  ->  `name = ctx; body` (the rules of this property do not depend on when a file is closed)"""
+    changed = True
+    while changed:
+        changed = False
+        for owner, f, blk in list(_blocks_of(fn)):
+            for k, st in enumerate(blk):
+                if isinstance(st, (ast.With, ast.AsyncWith)):
+                    new = []
+                    for it in st.items:
+                        if it.optional_vars is not None:
+                            a = ast.Assign(targets=[it.optional_vars], value=it.context_expr)
+                        else:
+                            a = ast.Expr(value=it.context_expr)
+                        ast.copy_location(a, st)
+                        new.append(a)
+                    blk[k:k + 1] = new + st.body
+                    changed = True
+                    break
+            if changed:
+                break
+
+
+class _Sub(ast.NodeTransformer):
+    def __init__(self, mapping):
+        self.m = mapping
+
+    def visit_Name(self, node):
+        if node.id in self.m:
+            v = self.m[node.id]
+            if isinstance(v, str):
+                return ast.copy_location(ast.Name(id=v, ctx=node.ctx), node)
+            if isinstance(node.ctx, ast.Load):
+                new = _clone(v)
+                for x in ast.walk(new):
+                    ast.copy_location(x, node)
+                return new
+        return node
+
+    def visit_Lambda(self, node):
+        return node
+
+
+def _simple_nested(h):
+    a = h.args
+    if a.vararg or a.kwarg or a.kwonlyargs or a.posonlyargs or h.decorator_list:
+        return False
+    body = [s for s in h.body if not (isinstance(s, ast.Expr) and isinstance(s.value, ast.Constant))]
+    if not body:
+        return False
+    for n in ast.walk(h):
+        if n is not h and isinstance(n, (ast.FunctionDef, ast.AsyncFunctionDef, ast.ClassDef, ast.Lambda, ast.Yield, ast.YieldFrom,
+                                         ast.Global, ast.Nonlocal, ast.Try)):
+            return False
+    rets = [n for n in ast.walk(h) if isinstance(n, ast.Return)]
+    return not rets or (len(rets) == 1 and rets[0] is body[-1])
+
+
+def _inline_nested(fn):
+    """calls `h(args)` (statement level) of a straight-line nested function of `fn` are replaced by its body with the
+    parameters bound to the arguments - the inverse of "extract local function"; -> names of helpers written back"""
+    helpers = {s.name: s for s in ast.walk(fn) if isinstance(s, ast.FunctionDef) and s is not fn and _simple_nested(s)}
+    if not helpers:
+        return []
+    done, counter = [], [0]
+    for _ in range(40):
+        hit = None
+        for owner, f, blk in _blocks_of(fn):
+            for k, st in enumerate(blk):
+                call = target = None
+                if isinstance(st, ast.Expr) and isinstance(st.value, ast.Call):
+                    call = st.value
+                elif isinstance(st, ast.Assign) and len(st.targets) == 1 and isinstance(st.value, ast.Call):
+                    call, target = st.value, st.targets[0]
+                if call is None or not isinstance(call.func, ast.Name) or call.func.id not in helpers:
+                    continue
+                h = helpers[call.func.id]
+                if any(x is st for x in ast.walk(h)):
+                    continue            # a call inside the helper itself (recursion): left alone
+                hit = (blk, k, st, call, target, h)
+                break
+            if hit:
+                break
+        if not hit:
+            break
+        blk, k, st, call, target, h = hit
+        params = [a.arg for a in h.args.args]
+        defaults = dict(zip(params[len(params) - len(h.args.defaults):], h.args.defaults))
+        actual = dict(zip(params, call.args))
+        bad = len(call.args) > len(params) or any(isinstance(a, ast.Starred) for a in call.args)
+        for kw in call.keywords:
+            if kw.arg is None or kw.arg not in params or kw.arg in actual:
+                bad = True
+            else:
+                actual[kw.arg] = kw.value
+        for p in params:
+            if p not in actual:
+                if p in defaults:
+                    actual[p] = defaults[p]
+                else:
+                    bad = True
+        if bad:
+            helpers.pop(h.name)
+            continue
+        counter[0] += 1
+        body = [_clone(s) for s in h.body if not (isinstance(s, ast.Expr) and isinstance(s.value, ast.Constant))]
+        stored = {n.id for s in body for n in ast.walk(s) if isinstance(n, ast.Name) and isinstance(n.ctx, ast.Store)}
+        outer = {n.id for n in _own_walk(fn) if isinstance(n, ast.Name)}
+        mapping, pre = {}, []
+        for p in params:
+            a = actual[p]
+            if p not in stored and isinstance(a, (ast.Name, ast.Constant)):
+                mapping[p] = a
+            else:
+                nm = f"{p}__h{counter[0]}"
+                mapping[p] = nm
+                pre.append(ast.Assign(targets=[ast.Name(id=nm, ctx=ast.Store())], value=_clone(a)))
+        for loc in stored - set(params):
+            if loc in outer:
+                mapping[loc] = f"{loc}__h{counter[0]}"
+        body = [_Sub(mapping).visit(s) for s in body]
+        out = pre + body
+        if out and isinstance(out[-1], ast.Return):
+            r = out.pop()
+            if target is not None:
+                out.append(ast.Assign(targets=[target], value=r.value if r.value is not None else ast.Constant(value=None)))
+            elif r.value is not None:
+                out.append(ast.Expr(value=r.value))
+        elif target is not None:
+            out.append(ast.Assign(targets=[target], value=ast.Constant(value=None)))
+        for s in out:                       # reported at the call site
+            for x in ast.walk(s):
+                for a in _POS:
+                    if hasattr(st, a) and hasattr(x, "_fields") and isinstance(x, (ast.stmt, ast.expr)):
+                        setattr(x, a, getattr(st, a))
+        blk[k:k + 1] = out
+        done.append(h.name)
+    return done
+
+
+def _work(fn):
+    """copy of a function with with-blocks spliced and simple nested helper functions written back at their call sites"""
+    w = _clone(fn)
+    _splice_with(w)
+    w._inlined = _inline_nested(w)
+    ast.fix_missing_locations(w)
+    _link(w)
+    w._qual = getattr(fn, "_qual", fn.name)
+    return w
+
+
+def _params(fn):
+    a = fn.args
+    out = [x.arg for x in a.posonlyargs + a.args + a.kwonlyargs]
+    if a.vararg:
+        out.append(a.vararg.arg)
+    if a.kwarg:
+        out.append(a.kwarg.arg)
+    return out
+
+
+# =========================================================================================================
+# local definitions: expressions with single-definition locals written out
+# =========================================================================================================
+class _Defs:
+    def __init__(self, fn):
+        self.fn = fn
+        self.params = set(_params(fn))
+        self.defs: dict[str, list] = {}          # name -> [(value expr or None (opaque), statement)]
+        for n in _own_walk(fn):
+            if isinstance(n, ast.Assign):
+                for t in n.targets:
+                    self._bind(t, n.value, n)
+            elif isinstance(n, ast.AnnAssign) and n.value is not None:
+                self._bind(n.target, n.value, n)
+            elif isinstance(n, ast.AugAssign):
+                self._bind(n.target, None, n)
+            elif isinstance(n, (ast.For, ast.AsyncFor)):
+                self._bind(n.target, None, n)
+            elif isinstance(n, ast.NamedExpr):
+                self._bind(n.target, n.value, n)
+            elif isinstance(n, (ast.Import, ast.ImportFrom)):
+                for al in n.names:
+                    self.defs.setdefault((al.asname or al.name).split(".")[0], []).append((None, n))
+            elif isinstance(n, (ast.FunctionDef, ast.ClassDef)):
+                self.defs.setdefault(n.name, []).append((None, n))
+            elif isinstance(n, ast.ExceptHandler) and n.name:
+                self.defs.setdefault(n.name, []).append((None, n))
+
+    def _bind(self, t, v, st):
+        if isinstance(t, ast.Name):
+            self.defs.setdefault(t.id, []).append((v, st))
+        elif isinstance(t, (ast.Tuple, ast.List)):
+            if isinstance(v, (ast.Tuple, ast.List)) and len(v.elts) == len(t.elts) and not any(isinstance(e, ast.Starred) for e in t.elts + v.elts):
+                for a, b in zip(t.elts, v.elts):
+                    self._bind(a, b, st)
+            else:
+                for k, a in enumerate(t.elts):
+                    if isinstance(a, ast.Starred):
+                        self._bind(a.value, None, st)
+                    elif v is not None and not any(isinstance(e, ast.Starred) for e in t.elts):
+                        # element k of the value: kept symbolic as value[k]
+                        self._bind(a, ast.Subscript(value=v, slice=ast.Constant(value=k), ctx=ast.Load()), st)
+                    else:
+                        self._bind(a, None, st)
+
+    def one(self, name, within=None):
+        """the defining expression of a local with exactly one definition (inside `within`, when given and ambiguous)"""
+        if name in self.params:
+            return None
+        ds = self.defs.get(name, [])
+        if len(ds) != 1 and within is not None:
+            inside = {id(x) for x in (ast.walk(within) if isinstance(within, ast.AST) else (y for s in within for y in ast.walk(s)))}
+            ds = [d for d in ds if id(d[1]) in inside]
+        if len(ds) != 1 or ds[0][0] is None:
+            return None
+        v = ds[0][0]
+        if any(isinstance(x, ast.Name) and x.id == name for x in ast.walk(v)):
+            return None
+        return v
+
+    def resolve(self, e, within=None, depth=8, stop=(), only=None):
+        """copy of expression `e` with every single-definition local replaced by its definition (recursively);
+        `only(value)` restricts the definitions that are written out"""
+        defs = self
+
+        class R(ast.NodeTransformer):
+            def __init__(self, d, bound):
+                self.d, self.bound = d, bound
+
+            def _scoped(self, node, names):
+                return R(self.d, self.bound | names).generic_visit(node)
+
+            def visit_ListComp(self, node):
+                return self._scoped(node, _comp_names(node))
+            visit_SetComp = visit_GeneratorExp = visit_DictComp = visit_ListComp
+
+            def visit_Lambda(self, node):
+                return self._scoped(node, set(_params(node)))
+
+            def visit_Name(self, node):
+                if not isinstance(node.ctx, ast.Load) or node.id in self.bound or node.id in stop or self.d <= 0:
+                    return node
+                v = defs.one(node.id, within)
+                if v is None or (only is not None and not only(v)) or _is_ctor(v):
+                    return node          # an object built by a class constructor keeps its name (identity matters)
+                new = R(self.d - 1, self.bound).visit(_clone(v))
+                for x in ast.walk(new):
+                    ast.copy_location(x, node)
+                return new
+        return R(depth, set()).visit(_clone(e))
+
+
+def _is_ctor(v):
+    return isinstance(v, ast.Call) and isinstance(v.func, ast.Name) and v.func.id[:1].isupper()
+
+
+def _reaching(D, name, node):
+    """the definition of local `name` that reaches `node`: the last unconditional assignment before it in an enclosing block
+    (None when a conditional assignment intervenes or none is found)"""
+    ch, p = node, parent(node)
+    while p is not None:
+        for f in ("body", "orelse", "finalbody"):
+            b = getattr(p, f, None)
+            if isinstance(b, list) and any(x is ch for x in b):
+                k = next(i for i, x in enumerate(b) if x is ch)
+                for st in reversed(b[:k]):
+                    for v, dst in D.defs.get(name, []):
+                        if dst is st:
+                            return v
+                    if any(dst is x for v, dst in D.defs.get(name, []) for x in ast.walk(st)):
+                        return None
+        if isinstance(p, (ast.FunctionDef, ast.AsyncFunctionDef)):
+            return None
+        ch, p = p, parent(p)
+    return None
+
+
+def _comp_names(node):
+    out = set()
+    for g in getattr(node, "generators", []):
+        for x in ast.walk(g.target):
+            if isinstance(x, ast.Name):
+                out.add(x.id)
+    return out
+
+
+def _is_const(e, value=None, typ=None):
+    return isinstance(e, ast.Constant) and (value is None or e.value == value) and (typ is None or isinstance(e.value, typ))
+
+
+def _arg(call, pos, kw=None):
+    if pos is not None and len(call.args) > pos and not any(isinstance(a, ast.Starred) for a in call.args[:pos + 1]):
+        return call.args[pos]
+    for k in call.keywords:
+        if kw is not None and k.arg == kw:
+            return k.value
+    return None
+
+
+def _fname(call):
+    f = call.func
+    return f.id if isinstance(f, ast.Name) else f.attr if isinstance(f, ast.Attribute) else ""
+
+
+# =========================================================================================================
+# W1: writer / readers of the HDF5 checkpoint agree
+# =========================================================================================================
+_WRAP = {"array", "asarray", "list", "tuple"}
+LAYOUT_PROPS = {"name", "ndims", "dims_order", "inv_dims_order", "starts", "ends", "shape", "fullShape", "max_block_shape", "size",
+                "max_block_size", "nprocs", "ranks"}          # properties of pygyro.model.layout.Layout (checked in run())
+
+
+def _fixed_layout(text):
+    """the layout expression names one fixed layout (`....getLayout('poloidal')`) instead of the current / stored one"""
+    try:
+        e = ast.parse(text, mode="eval").body
+    except SyntaxError:
+        return False
+    return isinstance(e, ast.Call) and _fname(e) == "getLayout" and len(e.args) == 1 and _is_const(e.args[0], typ=str)
+
+
+def _strip(e):
+    while isinstance(e, ast.Call) and _fname(e) in _WRAP and len(e.args) >= 1 and not isinstance(e.args[0], ast.Starred):
+        e = e.args[0]
+    return e
+
+
+def _hyperslab(e):
+    """`tuple(slice(s, e) for s, e in zip(A, B))` (list or generator form) or `tuple(map(slice, A, B))` -> (A, B)"""
+    if not (isinstance(e, ast.Call) and _fname(e) in ("tuple", "list") and len(e.args) == 1):
+        return None
+    c = e.args[0]
+    if isinstance(c, ast.Call) and _fname(c) in ("list", "tuple") and len(c.args) == 1:
+        c = c.args[0]
+    if isinstance(c, ast.Call) and _fname(c) == "map" and len(c.args) == 3 and isinstance(c.args[0], ast.Name) and c.args[0].id == "slice":
+        return c.args[1], c.args[2]
+    if not isinstance(c, (ast.ListComp, ast.GeneratorExp)) or len(c.generators) != 1 or c.generators[0].ifs:
+        return None
+    g = c.generators[0]
+    if not (isinstance(c.elt, ast.Call) and _fname(c.elt) == "slice" and len(c.elt.args) == 2 and isinstance(g.target, ast.Tuple)
+            and len(g.target.elts) == 2 and isinstance(g.iter, ast.Call) and _fname(g.iter) == "zip" and len(g.iter.args) == 2):
+        return None
+    if [src(x) for x in g.target.elts] != [src(x) for x in c.elt.args]:
+        return None
+    return g.iter.args[0], g.iter.args[1]
+
+
+def _block_layout(ab):
+    """(A, B) of a hyperslab -> ('ok', layout source) | ('bad', diagnosis) | (None, None)"""
+    if ab is None:
+        return None, None
+    a, b = ab
+    if isinstance(a, ast.Attribute) and isinstance(b, ast.Attribute):
+        if a.attr == "starts" and b.attr == "ends" and src(a.value) == src(b.value):
+            return "ok", src(a.value)
+        if a.attr not in LAYOUT_PROPS or b.attr not in LAYOUT_PROPS or (src(a.value) != src(b.value) and not (
+                _fixed_layout(src(a.value)) or _fixed_layout(src(b.value)))):
+            return None, None           # not attributes this rule knows: cannot decide
+        return "bad", (f"the block is taken as zip({src(a)}, {src(b)}), which is not [starts, ends) of one layout: a process writes/reads "
+                       "a block that is not its own part of the global array")
+    return None, None
+
+
+def _attr_reads(e):
+    """keys of `X.attrs[<key>]` / `X.attrs.get(<key>)` in an expression"""
+    out = []
+    for n in ast.walk(e):
+        if isinstance(n, ast.Subscript) and isinstance(n.value, ast.Attribute) and n.value.attr == "attrs" and _is_const(n.slice, typ=str):
+            out.append(n.slice.value)
+        elif isinstance(n, ast.Call) and isinstance(n.func, ast.Attribute) and n.func.attr == "get" and isinstance(n.func.value, ast.Attribute) \
+                and n.func.value.attr == "attrs" and n.args and _is_const(n.args[0], typ=str):
+            out.append(n.args[0].value)
+    return out
+
+
+def _is_file_open(e):
+    return isinstance(e, ast.Call) and _fname(e) == "File"
+
+
+def _reader_facts(fn, D):
+    """dataset keys read from an h5py file, attribute keys read, and the statement that fills `<obj>._f` from the dataset"""
+    keys, akeys, loads = [], [], []
+    for n in _own_walk(fn):
+        if isinstance(n, ast.Subscript) and isinstance(n.ctx, ast.Load) and _is_const(n.slice, typ=str) and _is_file_open(D.resolve(n.value)):
+            keys.append(n.slice.value)
+        if isinstance(n, ast.expr) and not isinstance(parent(n), ast.expr):
+            akeys.extend(_attr_reads(n))
+        if isinstance(n, ast.Assign) and len(n.targets) == 1 and isinstance(n.targets[0], ast.Subscript) and \
+                isinstance(n.targets[0].value, ast.Attribute) and n.targets[0].value.attr == "_f" and isinstance(n.value, ast.Subscript):
+            base = D.resolve(n.value.value)
+            if isinstance(base, ast.Subscript) and _is_file_open(base.value):
+                loads.append(n)
+    return keys, akeys, loads
+
+
+def _eq_form(test):
+    """-> (A, B, kind) with kind 'all-equal' / 'some-differ' / 'some-equal' / 'all-differ' describing when `test` is true"""
+    neg = False
+    while isinstance(test, ast.UnaryOp) and isinstance(test.op, ast.Not):
+        test, neg = test.operand, not neg
+    q, cmp_ = None, None
+    if isinstance(test, ast.Call) and isinstance(test.func, ast.Attribute) and test.func.attr in ("all", "any") and not test.args \
+            and isinstance(test.func.value, ast.Compare):
+        q, cmp_ = test.func.attr, test.func.value
+    elif isinstance(test, ast.Call) and _fname(test) in ("all", "any") and len(test.args) == 1 and isinstance(test.args[0], ast.Compare):
+        q, cmp_ = _fname(test), test.args[0]
+    elif isinstance(test, ast.Call) and _fname(test) in ("array_equal", "array_equiv") and len(test.args) == 2:
+        a, b = test.args
+        return a, b, "some-differ" if neg else "all-equal"
+    elif isinstance(test, ast.Compare):
+        q, cmp_ = "all", test
+    if cmp_ is None or len(cmp_.ops) != 1 or not isinstance(cmp_.ops[0], (ast.Eq, ast.NotEq)):
+        return None
+    eq = isinstance(cmp_.ops[0], ast.Eq)
+    kind = {("all", True): "all-equal", ("any", True): "some-equal", ("all", False): "all-differ", ("any", False): "some-differ"}[(q, eq)]
+    if isinstance(test, ast.Compare) and not eq:
+        kind = "some-differ"        # sequence inequality
+    if neg:
+        kind = {"all-equal": "some-differ", "some-differ": "all-equal", "some-equal": "all-differ", "all-differ": "some-equal"}[kind]
+    return cmp_.left, cmp_.comparators[0], kind
+
+
 def hdf5_agreement(chk):
-    w = chk.func(U.GRID, "Grid.writeH5Dataset")
-    r = chk.func(U.GRID, "Grid.loadFromFile")
-    s = chk.func(U.SETUPS, "setupFromFile")
-    tw, tr, ts = (src(f).replace(" ", "").replace("\n", ";") for f in (w, r, s))
-    # dataset name, layout attribute
-    okd = 'file.create_dataset("dset"' in tw.replace("'", '"') and "file['/dset']" in tr and "file['/dset']" in ts
-    chk.ob("W1-dataset-name", w, "dataset 'dset'", okd, "writer and both readers use the same dataset path" if okd else
-           "dataset name differs between writer and readers", file=U.GRID, func="Grid.writeH5Dataset")
-    oka = 'dset.attrs.create("Layout",attr_data' in tw.replace("'", '"') and "attr_data=np.array(self._layout.dims_order)" in tw and \
-        "dataset.attrs['Layout']" in tr and "dataset.attrs['Layout']" in ts
-    chk.ob("W1-layout-attribute", w, "attribute 'Layout' = dims_order", oka, "the recorded layout is the current dims_order and both "
-           "readers read the same attribute" if oka else "layout attribute differs between writer and readers", file=U.GRID,
-           func="Grid.writeH5Dataset")
-    # hyperslab = zip(starts, ends) of the layout the data is in
-    hs = "slices=tuple([slice(s,e)fors,einzip(self._layout.starts,self._layout.ends)])"
-    okh = hs in tw and hs in tr and "dset[slices]=self._f[:]" in tw and "self._f[:]=dataset[slices]" in tr and \
-        "file.create_dataset(\"dset\",self._layout.fullShape,dtype=self._f.dtype)" in tw.replace("'", '"')
-    chk.ob("W1-hyperslab", w, "dset[starts:ends] <-> _f", okh,
-           "the file holds the global array in the recorded layout's order; each process writes/reads exactly its [start,end) block"
-           if okh else "hyperslab selection differs between writing and loading", file=U.GRID, func="Grid.writeH5Dataset")
-    hs2 = "slices=tuple([slice(s,e)fors,einzip(layout.starts,layout.ends)])"
-    okh2 = hs2 in ts and "layout=grid.getLayout(my_layout)" in ts and "grid._f[:]=dataset[slices]" in ts and \
-        "grid=Grid(eta_grids,bsplines,remapper,my_layout,comm,dtype=dtype,allocateSaveMemory=allocateSaveMemory)" in ts
-    chk.ob("W1-hyperslab", s, "setupFromFile: grid built in the stored layout, block read by that layout's starts/ends", okh2,
-           "the restart grid is created in the layout found in the file and filled with this process's block of it (any process count)"
-           if okh2 else "restart read no longer uses the stored layout's block", file=U.SETUPS, func="setupFromFile")
-    # layout guard
-    okg = "assert(order==self._layout.dims_order).all()" in tr
-    chk.ob("W1-layout-guard", r, "assert (order == self._layout.dims_order).all()", okg,
-           "loading into a grid whose layout differs from the stored one is refused" if okg else "loadFromFile no longer checks the stored layout",
-           file=U.GRID, func="Grid.loadFromFile")
-    okl = contains(s, """
-for name, dims_order in layouts.items():
-    if (dims_order == order).all():
-        my_layout = name
-""") and any(isinstance(n, ast.If) and contains(n.test, "my_layout is None") and any(isinstance(x, ast.Raise) for x in n.body)
-             for n in ast.walk(s))
-    chk.ob("W1-layout-guard", s, "setupFromFile: stored order -> standard layout name, else refuse", okl,
-           "the stored ordering selects the standard layout of that ordering; an unknown ordering is refused" if okl else
-           "stored-layout lookup changed", file=U.SETUPS, func="setupFromFile")
-    # requested layout is reached by a layout change of the loaded grid
-    okq = contains(s, """
-desired_layout = kwargs.pop('layout')
-if desired_layout != my_layout:
-    grid.setLayout(desired_layout)
-""")
-    chk.ob("W1-layout-guard", s, "setupFromFile: change to the requested layout after loading", okq,
-           "the grid is brought to the requested start layout by setLayout, never by reinterpreting the data" if okq else
-           "requested layout is not reached by setLayout", file=U.SETUPS, func="setupFromFile")
+    w0 = chk.func(U.GRID, "Grid.writeH5Dataset")
+    r0 = chk.func(U.GRID, "Grid.loadFromFile")
+    s0 = chk.func(U.SETUPS, "setupFromFile")
+    w, r, s = _work(w0), _work(r0), _work(s0)
+    Dw, Dr, Ds = _Defs(w), _Defs(r), _Defs(s)
+    KW, KR, KS = dict(file=U.GRID, func="Grid.writeH5Dataset"), dict(file=U.GRID, func="Grid.loadFromFile"), dict(file=U.SETUPS, func="setupFromFile")
+
+    # ---- what the writer does
+    creates = [n for n in _own_walk(w) if isinstance(n, ast.Call) and _fname(n) == "create_dataset"]
+    wname = wshape = None
+    if len(creates) == 1:
+        wname, wshape = _arg(creates[0], 0, "name"), _arg(creates[0], 1, "shape")
+    stores = [n for n in _own_walk(w) if isinstance(n, ast.Assign) and len(n.targets) == 1 and isinstance(n.targets[0], ast.Subscript)
+              and isinstance(D_ := Dw.resolve(n.targets[0].value), ast.Call) and _fname(D_) == "create_dataset"]
+    wattr = []      # (key node, data node)
+    for n in _own_walk(w):
+        if isinstance(n, ast.Call) and isinstance(n.func, ast.Attribute) and n.func.attr in ("create", "modify") and \
+                isinstance(n.func.value, ast.Attribute) and n.func.value.attr == "attrs":
+            wattr.append((_arg(n, 0, "name"), _arg(n, 1, "data")))
+        elif isinstance(n, ast.Assign) and len(n.targets) == 1 and isinstance(n.targets[0], ast.Subscript) and \
+                isinstance(n.targets[0].value, ast.Attribute) and n.targets[0].value.attr == "attrs":
+            wattr.append((n.targets[0].slice, n.value))
+    rkeys, rakeys, rloads = _reader_facts(r, Dr)
+    skeys, sakeys, sloads = _reader_facts(s, Ds)
+
+    # ---- dataset name
+    ok = bad = None
+    if wname is not None and _is_const(wname, typ=str) and len(rkeys) == 1 and len(skeys) == 1:
+        names = {wname.value.lstrip("/"), rkeys[0].lstrip("/"), skeys[0].lstrip("/")}
+        ok = len(names) == 1
+        if not ok:
+            bad = (f"the writer creates dataset '{wname.value}', loadFromFile reads '{rkeys[0]}', setupFromFile reads '{skeys[0]}': "
+                   "a checkpoint cannot be read back (KeyError)")
+    chk.pat("W1-dataset-name", w0, "dataset 'dset'", ok, "writer and both readers use the same dataset path", bad, **KW)
+
+    # ---- the block the writer writes
+    wl_kind = wl = None
+    if len(stores) == 1:
+        wl_kind, wl = _block_layout(_hyperslab(Dw.resolve(stores[0].targets[0].slice)))
+    ok = bad = None
+    if wl_kind == "bad":
+        bad = wl
+    elif wl_kind == "ok" and wshape is not None:
+        shp = Dw.resolve(wshape)
+        val = Dw.resolve(stores[0].value)
+        val_ok = src(val) in ("self._f[:]", "self._f", "self._f[...]")
+        if wl != "self._layout":
+            if _fixed_layout(wl):
+                bad = (f"the block written is [starts, ends) of the fixed layout `{wl}`, but the data `self._f` is stored in the current "
+                       "layout `self._layout`: the file does not hold the global array in the recorded order")
+        elif isinstance(shp, ast.Attribute) and src(shp.value) == wl and shp.attr != "fullShape" and shp.attr in LAYOUT_PROPS:
+            bad = (f"the dataset is created with shape `{src(shp)}` instead of the global shape `{wl}.fullShape`: the blocks of the "
+                   "other processes do not fit into the file")
+        elif src(shp) == wl + ".fullShape" and val_ok:
+            ok = True
+    chk.pat("W1-hyperslab", w0, "dset[starts:ends] <-> _f", ok, "the file holds the global array in the current layout's order; each "
+            "process writes exactly its [start,end) block of it", bad, **KW)
+
+    # ---- the layout attribute
+    ok = bad = None
+    skip = wl_kind == "bad"          # decided (and reported) by the hyperslab rule
+    if len(wattr) == 1 and wattr[0][0] is not None and wattr[0][1] is not None and _is_const(wattr[0][0], typ=str) and rakeys and sakeys:
+        key = wattr[0][0].value
+        data = _strip(Dw.resolve(wattr[0][1]))
+        if set(rakeys) != {key} or set(sakeys) != {key}:
+            bad = (f"the writer records the attribute '{key}' but the readers read {sorted(set(rakeys) | set(sakeys))}: the stored "
+                   "layout is not found on loading (KeyError)")
+        elif isinstance(data, ast.Attribute) and wl_kind == "ok":
+            if src(data) == wl + ".dims_order":
+                ok = True
+            elif data.attr != "dims_order" and src(data.value) == wl and data.attr in LAYOUT_PROPS:
+                bad = (f"the attribute records `{src(data)}`, not the order of the dimensions `{wl}.dims_order` which both readers "
+                       "compare it with: checkpoints are refused or read in the wrong order")
+            elif data.attr == "dims_order" and _fixed_layout(src(data.value)):
+                bad = (f"the attribute records the order of `{src(data.value)}` while the data are written in the order of `{wl}`: "
+                       "a reader that trusts the attribute reinterprets the axes")
+    if not skip:
+        chk.pat("W1-layout-attribute", w0, "attribute 'Layout' = dims_order", ok, "the recorded layout is the dims_order of the layout the "
+                "data are written in, and both readers read the same attribute", bad, **KW)
+
+    # ---- loadFromFile: guard and block
+    rl_kind = rl = None
+    if len(rloads) == 1:
+        rl_kind, rl = _block_layout(_hyperslab(Dr.resolve(rloads[0].value.slice)))
+    guards = []
+    for n in _own_walk(r):
+        t = None
+        if isinstance(n, ast.Assert):
+            t, want = n.test, "all-equal"
+        elif isinstance(n, ast.If) and n.body and isinstance(n.body[0], ast.Raise):
+            t, want = n.test, "some-differ"
+        if t is not None:
+            rt = Dr.resolve(t)
+            if _attr_reads(rt):
+                guards.append((rt, want, n))
+    ok = bad = None
+    anchor = r0
+    if not guards:
+        holders = {t.id for n in _own_walk(r) if isinstance(n, ast.Assign) and _attr_reads(n.value) for t in n.targets if isinstance(t, ast.Name)}
+        passed_on = any(isinstance(n, ast.Call) and any(isinstance(x, ast.Name) and x.id in holders for a in n.args for x in ast.walk(a))
+                        and not (_fname(n) in _WRAP) for n in _own_walk(r)) or any(
+            isinstance(n, ast.Call) and any(_attr_reads(a) for a in n.args) and _fname(n) not in _WRAP for n in _own_walk(r))
+        if rloads and not passed_on:
+            bad = ("no assertion compares the stored 'Layout' attribute with the layout of the grid: a checkpoint written in another "
+                   "layout is loaded with permuted axes")
+    elif len(guards) == 1:
+        rt, want, anchor = guards[0]
+        f = _eq_form(rt)
+        if f is not None:
+            a, b, kind = f
+            a, b = _strip(a), _strip(b)
+            if not _attr_reads(a):
+                a, b = b, a
+            if _attr_reads(a) and isinstance(b, ast.Attribute) and b.attr == "dims_order":
+                if kind != want:
+                    bad = (f"the guard `{src(guards[0][0])[:90]}` passes when {kind.replace('-', ' ')} instead of requiring every "
+                           "position of the stored order to equal the grid's: a checkpoint of another layout is accepted")
+                elif rl_kind == "ok" and src(b.value) != rl:
+                    if _fixed_layout(src(b.value)) or _fixed_layout(rl):
+                        bad = (f"the stored order is compared with `{src(b)}` but the block is read with the starts/ends of `{rl}`")
+                elif rl_kind == "ok" or src(b.value) == "self._layout":
+                    ok = True
+    chk.pat("W1-layout-guard", anchor if anchor is not r0 else r0, "assert (order == self._layout.dims_order).all()", ok,
+            "loading into a grid whose layout differs from the stored one is refused", bad, **KR)
+    ok = bad = None
+    if rl_kind == "bad":
+        bad = rl
+    elif rl_kind == "ok":
+        tgt = rloads[0].targets[0]
+        if rl != "self._layout" and src(tgt.value) == "self._f":
+            if _fixed_layout(rl):
+                bad = f"the block read is [starts, ends) of `{rl}` but it is stored into `self._f`, which has the shape of `self._layout`"
+        elif src(tgt.value) == "self._f":
+            ok = True
+    chk.pat("W1-hyperslab", r0, "loadFromFile: self._f <- dataset[starts:ends] of the same layout", ok,
+            "each process reads the [start,end) block of its current layout, the layout the guard has compared with the file", bad, **KR)
+
+    # ---- setupFromFile: grid in the stored layout, filled with that layout's block
+    ok = bad = None
+    ML = None            # the local holding the name of the stored layout
+    if len(sloads) == 1:
+        sl_kind, sl = _block_layout(_hyperslab(Ds.resolve(sloads[0].value.slice, within=_enclosing_block(sloads[0]))))
+        if sl_kind == "bad":
+            bad = sl
+        elif sl_kind == "ok":
+            lay = ast.parse(sl, mode="eval").body
+            gobj = src(sloads[0].targets[0].value.value)            # `grid` of grid._f
+            ctor = Ds.one(gobj, within=_enclosing_block(sloads[0]))
+            if isinstance(lay, ast.Call) and _fname(lay) == "getLayout" and isinstance(lay.func, ast.Attribute) and len(lay.args) == 1 \
+                    and isinstance(ctor, ast.Call) and _fname(ctor) == "Grid":
+                larg = _arg(ctor, 3, "layout")
+                larg_r = Ds.resolve(larg, within=_enclosing_block(sloads[0])) if larg is not None else None
+                mgr = _arg(ctor, 2, "layout_manager")
+                requested = lambda e_: _is_const(e_, typ=str) or any(_is_const(x, "layout") for x in ast.walk(e_))
+                if src(lay.func.value) != gobj and (mgr is None or src(lay.func.value) != src(mgr)):
+                    pass                    # a layout of some other object: cannot decide
+                elif larg is not None and src(larg_r) != src(lay.args[0]):
+                    if requested(larg_r) != requested(lay.args[0]):
+                        bad = (f"the grid is created in layout `{src(larg)}` but filled with the block of layout `{src(lay.args[0])[:60]}`: "
+                               "the data are reinterpreted in another order of the dimensions")
+                elif larg is not None and isinstance(larg, ast.Name):
+                    ML = larg.id
+                    ok = True
+    chk.pat("W1-hyperslab", s0, "setupFromFile: grid built in the stored layout, block read by that layout's starts/ends", ok,
+            "the restart grid is created in the layout found in the file and filled with this process's block of it (any process count)",
+            bad, **KS)
+
+    # ---- setupFromFile: stored order -> name of the standard layout
+    skip = ML is None and bad is not None            # the two rules below need the local holding the stored layout's name
+    ok = bad = None
+    if ML is not None:
+        ok, bad = _stored_layout_lookup(s, Ds, ML)
+    if not skip:
+        chk.pat("W1-layout-guard", s0, "setupFromFile: stored order -> standard layout name, else refuse", ok,
+                "the stored ordering selects the standard layout of that ordering; an unknown ordering is refused", bad, **KS)
+
+    # ---- setupFromFile: the requested layout is reached by setLayout
+    ok = bad = None
+    if ML is not None:
+        gobj = src(sloads[0].targets[0].value.value)
+        sets = [n for n in _own_walk(s) if isinstance(n, ast.Call) and _fname(n) == "setLayout" and isinstance(n.func, ast.Attribute)
+                and src(n.func.value) == gobj and len(n.args) == 1]
+        req = []
+        for c in sets:
+            a = Ds.resolve(c.args[0], within=_enclosing_block(c), stop=(ML,))
+            if any(_is_const(x, "layout") for x in ast.walk(a)) and "kwargs" in src(a):
+                req.append(c)
+        holders = {t.id for n in _own_walk(s) if isinstance(n, ast.Assign) and any(_is_const(x, "layout") for x in ast.walk(n.value))
+                   and "kwargs" in src(n.value) for t in n.targets if isinstance(t, ast.Name)}
+        blk = _enclosing_block(sloads[0]) or []
+        handed = any(isinstance(n, ast.Call) and _fname(n) not in ("pop", "get") and any(
+            isinstance(x, ast.Name) and x.id in holders for a in list(n.args) + [k.value for k in n.keywords] for x in ast.walk(a))
+            for st in blk for n in ast.walk(st))
+        if not sets and not handed:
+            bad = ("the grid read from the checkpoint is never brought to the requested layout (no setLayout): the caller receives it in "
+                   "the stored layout")
+        elif len(req) == 1:
+            c = req[0]
+            gs = [(Ds.resolve(t, within=_enclosing_block(c), stop=(ML,)), pol) for t, pol, k in guards_of(c) if k == "if"]
+            a = src(Ds.resolve(c.args[0], within=_enclosing_block(c), stop=(ML,)))
+            for t, pol in gs:
+                if isinstance(t, ast.Compare) and len(t.ops) == 1 and isinstance(t.ops[0], (ast.NotEq, ast.Eq)):
+                    sides = {src(t.left), src(t.comparators[0])}
+                    if ML in sides and (a in sides or src(c.args[0]) in sides):
+                        if isinstance(t.ops[0], ast.NotEq) == pol:
+                            ok = True
+                        else:
+                            bad = (f"setLayout is called when the requested layout EQUALS the stored one (`{src(t)}`): a different "
+                                   "requested layout is never reached")
+    if not skip:
+        chk.pat("W1-layout-guard", s0, "setupFromFile: change to the requested layout after loading", ok,
+                "the grid is brought to the requested start layout by setLayout, never by reinterpreting the data", bad, **KS)
+
+
+def _enclosing_block(node):
+    """statements of the innermost if-arm / loop body / function body around a node (where its locals are defined)"""
+    ch, p = node, parent(node)
+    while p is not None:
+        for f in ("body", "orelse", "finalbody"):
+            b = getattr(p, f, None)
+            if isinstance(b, list) and any(x is ch for x in b):
+                if isinstance(p, (ast.If, ast.FunctionDef)):
+                    return b
+        ch, p = p, parent(p)
+    return None
+
+
+def _stored_layout_lookup(s, Ds, ML):
+    """how the local `ML` gets the name of the standard layout whose order is the stored one -> (ok, bad)"""
+    refuse = False
+    mentions = False            # some other raise / assert talks about ML: an unrecognised way of refusing
+    for n in _own_walk(s):
+        if isinstance(n, (ast.Assert, ast.If)) and any(isinstance(x, ast.Name) and x.id == ML for x in ast.walk(n.test)) and (
+                isinstance(n, ast.Assert) or any(isinstance(x, ast.Raise) for b_ in (n.body, n.orelse) for y in b_ for x in ast.walk(y))):
+            mentions = True
+        if isinstance(n, ast.For) and any(isinstance(x, ast.Raise) for x in n.orelse) and any(isinstance(x, ast.Break) for x in ast.walk(n)) \
+                and any(isinstance(x, ast.Name) and x.id == ML and isinstance(x.ctx, ast.Store) for x in ast.walk(n)):
+            refuse = True
+        if isinstance(n, ast.If) and any(isinstance(x, ast.Raise) for x in n.body) and same_expr(n.test, f"{ML} is None"):
+            refuse = True
+        if isinstance(n, ast.Assert) and (same_expr(n.test, f"{ML} is not None") or same_expr(n.test, ML)):
+            refuse = True
+    defs = Ds.defs.get(ML, [])
+    # form (a): loop over the table of layouts
+    for n in _own_walk(s):
+        if not (isinstance(n, ast.For) and isinstance(n.target, ast.Tuple) and len(n.target.elts) == 2 and isinstance(n.iter, ast.Call)
+                and _fname(n.iter) == "items"):
+            continue
+        nm, dims = (src(x) for x in n.target.elts)
+        for i in [x for x in ast.walk(n) if isinstance(x, ast.If)]:
+            sets = [a for a in i.body if isinstance(a, ast.Assign) and src(a.targets[0]) == ML and src(a.value) == nm]
+            if not sets:
+                continue
+            f = _eq_form(Ds.resolve(i.test, stop=(nm, dims)))
+            if f is None:
+                return None, None
+            a, b, kind = f
+            a, b = _strip(a), _strip(b)
+            if src(a) != dims:
+                a, b = b, a
+            if src(a) != dims or not _attr_reads(b):
+                return None, None
+            if kind != "all-equal":
+                return None, (f"the stored order selects a layout when `{src(i.test)}` ({kind.replace('-', ' ')}), not when every position "
+                              "agrees: the data are read in the order of a layout they were not written in")
+            if not refuse:
+                return None, (None if mentions else f"`{ML}` stays None for an unknown stored ordering and nothing refuses it")
+            if not any(_is_const(d[0], None) and isinstance(d[0], ast.Constant) and d[0].value is None for d in defs if d[0] is not None):
+                return None, None
+            return True, None
+    # form (b): inverted table {order: name}
+    if len(defs) == 1 and defs[0][0] is not None:
+        v = Ds.resolve(defs[0][0])
+        table = key = None
+        default = False
+        if isinstance(v, ast.Call) and isinstance(v.func, ast.Attribute) and v.func.attr == "get" and v.args:
+            table, key, default = v.func.value, v.args[0], len(v.args) > 1 and not _is_const(v.args[1], None) or bool(v.keywords)
+            if len(v.args) > 1 and isinstance(v.args[1], ast.Constant) and v.args[1].value is None:
+                default = False
+            needs_refuse = True
+        elif isinstance(v, ast.Subscript):
+            table, key, needs_refuse = v.value, v.slice, False
+        if isinstance(table, ast.DictComp) and len(table.generators) == 1 and not table.generators[0].ifs:
+            g = table.generators[0]
+            if isinstance(g.target, ast.Tuple) and len(g.target.elts) == 2 and isinstance(g.iter, ast.Call) and _fname(g.iter) == "items":
+                nm, dims = (src(x) for x in g.target.elts)
+                if src(table.value) == nm and src(_strip(table.key)) == dims and _attr_reads(key):
+                    if default:
+                        return None, ("an unknown stored ordering is mapped to a default layout instead of being refused: the data are "
+                                      "read in an order they were not written in")
+                    if needs_refuse and not refuse:
+                        return None, (None if mentions else f"`{ML}` is None for an unknown stored ordering and nothing refuses it")
+                    return True, None
+    return None, None
+
+
+# =========================================================================================================
+# W2: the file-name protocol, decided from the name expressions (no code is run)
+# =========================================================================================================
+def _merge(parts):
+    out = []
+    for p in parts:
+        if p[0] == "lit" and out and out[-1][0] == "lit":
+            out[-1] = ("lit", out[-1][1] + p[1])
+        elif not (p[0] == "lit" and p[1] == ""):
+            out.append(p)
+    return out
+
+
+def _spec_text(fs):
+    if fs is None:
+        return ""
+    if isinstance(fs, ast.JoinedStr) and all(isinstance(v, ast.Constant) for v in fs.values):
+        return "".join(str(v.value) for v in fs.values)
+    return None
+
+
+_PCT = re.compile(r"%(?:(%)|([-+ 0#]*)(\d*)(?:\.(\d+))?([sdif]))")
+
+
+def _template(e):
+    """abstract value of a string-building expression: [('lit', text) | ('fld', source of the expression, format spec)] or None"""
+    if isinstance(e, ast.Constant) and isinstance(e.value, str):
+        return [("lit", e.value)]
+    if isinstance(e, ast.JoinedStr):
+        out = []
+        for p in e.values:
+            if isinstance(p, ast.Constant):
+                out.append(("lit", str(p.value)))
+            else:
+                sp = _spec_text(p.format_spec)
+                if sp is None:
+                    return None
+                out.append(("fld", src(p.value), sp))
+        return _merge(out)
+    if isinstance(e, ast.BinOp) and isinstance(e.op, ast.Add):
+        a, b = _template(e.left), _template(e.right)
+        return None if a is None or b is None else _merge(a + b)
+    if isinstance(e, ast.BinOp) and isinstance(e.op, ast.Mod) and isinstance(e.left, ast.Constant) and isinstance(e.left.value, str):
+        args = list(e.right.elts) if isinstance(e.right, ast.Tuple) else [e.right]
+        out, pos, k = [], 0, 0
+        text = e.left.value
+        for m in _PCT.finditer(text):
+            out.append(("lit", text[pos:m.start()]))
+            pos = m.end()
+            if m.group(1):
+                out.append(("lit", "%"))
+                continue
+            if k >= len(args) or m.group(4) or set(m.group(2)) - {"0"}:
+                return None
+            conv = m.group(5)
+            spec = ("0" if "0" in m.group(2) else "") + m.group(3) + ("" if conv == "s" else "d" if conv in "di" else "f")
+            out.append(("fld", src(args[k]), spec))
+            k += 1
+        if "%" in text[pos:] or k != len(args):
+            return None
+        out.append(("lit", text[pos:]))
+        return _merge(out)
+    if isinstance(e, ast.Call) and isinstance(e.func, ast.Attribute):
+        f = e.func
+        if f.attr == "format" and isinstance(f.value, ast.Constant) and isinstance(f.value.value, str):
+            if any(isinstance(a, ast.Starred) for a in e.args) or any(k.arg is None for k in e.keywords):
+                return None
+            kw = {k.arg: k.value for k in e.keywords}
+            out, auto = [], 0
+            try:
+                pieces = list(string.Formatter().parse(f.value.value))
+            except ValueError:
+                return None
+            for lit, field, spec, conv in pieces:
+                out.append(("lit", lit))
+                if field is None:
+                    continue
+                if "{" in (spec or ""):
+                    return None
+                if field == "":
+                    arg = e.args[auto] if auto < len(e.args) else None
+                    auto += 1
+                elif field.isdigit():
+                    arg = e.args[int(field)] if int(field) < len(e.args) else None
+                elif field.isidentifier():
+                    arg = kw.get(field)
+                else:
+                    return None
+                if arg is None:
+                    return None
+                inner = _template(arg) if not spec else None
+                if inner is not None and not (len(inner) == 1 and inner[0][0] == "fld"):
+                    out.extend(inner)
+                else:
+                    out.append(("fld", src(arg), spec or ""))
+            return _merge(out)
+        if f.attr == "join" and src(f.value).endswith("path"):
+            out = []
+            for k, a in enumerate(e.args):
+                if isinstance(a, ast.Starred):
+                    return None
+                t = _template(a)
+                if t is None:
+                    return None
+                if k and not (out and out[-1][0] == "lit" and out[-1][1].endswith("/")):
+                    out.append(("lit", "/"))
+                out.extend(t)
+            return _merge(out)
+        if f.attr == "zfill" and len(e.args) == 1 and _is_const(e.args[0], typ=int):
+            inner = e.func.value
+            if isinstance(inner, ast.Call) and _fname(inner) == "str" and len(inner.args) == 1:
+                inner = inner.args[0]
+            return [("fld", src(inner), "0" + str(e.args[0].value))]
+    if isinstance(e, ast.Call) and isinstance(e.func, ast.Name) and e.func.id == "str" and len(e.args) == 1:
+        return [("fld", src(e.args[0]), "")]
+    if isinstance(e, (ast.Name, ast.Attribute, ast.Subscript, ast.Call)):
+        return [("fld", src(e), "")]
+    return None
+
+
+def _norm_spec(sp):
+    return sp[:-1] if sp.endswith("d") else sp
+
+
+def _canon(parts, roles, other="T"):
+    """text of a template with the fields named by role; a field that has no role gets the role `other`"""
+    out = []
+    for p in parts:
+        if p[0] == "lit":
+            out.append(p[1])
+        else:
+            r = roles.get(p[1], other)
+            if r.startswith("="):
+                out.append(r[1:])            # a field with a known constant value
+            else:
+                out.append("{" + r + (":" + _norm_spec(p[2]) if p[2] else "") + "}")
+    return "".join(out)
+
+
+_ZERO_PAD = re.compile(r"^(0\d+|0[>=]\d+)$")
+
+
+def _time_field(canon):
+    """-> (text before the time field, spec, text after it) of a canonical template with exactly one {T...} field"""
+    m = list(re.finditer(r"\{T(?::([^}]*))?\}", canon))
+    if len(m) != 1:
+        return None
+    return canon[:m[0].start()], m[0].group(1) or "", canon[m[0].end():]
+
+
+def _unwrap_names(x):
+    """list()/sorted() wrappers around the listing -> (inner, sorted ascending?, key source or None)"""
+    asc, key = None, None
+    while isinstance(x, ast.Call) and isinstance(x.func, ast.Name) and x.func.id in ("list", "sorted", "tuple") and x.args:
+        if x.func.id == "sorted":
+            asc = True if asc is None else asc
+            for k in x.keywords:
+                if k.arg == "key":
+                    key = src(k.value)
+                elif k.arg == "reverse":
+                    if _is_const(k.value, True):
+                        asc = False
+                    elif not _is_const(k.value, False):
+                        key = key or "reverse=?"
+        x = x.args[0]
+    return x, asc, key
+
+
+def _const_index(sl):
+    if _is_const(sl, typ=int):
+        return sl.value
+    if isinstance(sl, ast.UnaryOp) and isinstance(sl.op, ast.USub) and _is_const(sl.operand, typ=int):
+        return -sl.operand.value
+    return None
+
+
+def _selection(value, stmt, D, block):
+    """how one file is chosen among the listed names -> (kind, listing expression);
+    kind: max | min | date | key | listing-order | None"""
+    v = D.resolve(value, within=block)
+    pre_sorted = None
+    if isinstance(value, ast.Subscript) and isinstance(value.value, ast.Name):
+        # names.sort() before names[-1]
+        nm = value.value.id
+        for st in block or []:
+            if st is stmt:
+                break
+            if isinstance(st, ast.Expr) and isinstance(st.value, ast.Call) and isinstance(st.value.func, ast.Attribute) \
+                    and st.value.func.attr == "sort" and src(st.value.func.value) == nm:
+                pre_sorted = (not any(k.arg == "reverse" and _is_const(k.value, True) for k in st.value.keywords),
+                              next((src(k.value) for k in st.value.keywords if k.arg == "key"), None))
+
+    def datekey(k):
+        return any(w in k for w in ("getmtime", "getctime", "getatime", "st_mtime", "st_ctime"))
+    if isinstance(v, ast.Call) and isinstance(v.func, ast.Name) and v.func.id in ("max", "min") and len(v.args) == 1:
+        inner, asc, key = _unwrap_names(v.args[0])
+        key = next((src(k.value) for k in v.keywords if k.arg == "key"), None)
+        if key is not None:
+            return ("date" if datekey(key) else "key"), inner
+        return v.func.id, inner
+    if isinstance(v, ast.Subscript):
+        idx = _const_index(v.slice)
+        inner, asc, key = _unwrap_names(v.value)
+        if pre_sorted is not None and asc is None:
+            asc, key = pre_sorted
+        if idx not in (0, -1):
+            return None, inner
+        if key is not None:
+            return ("date" if datekey(key) else "key"), inner
+        if asc is None:
+            return "listing-order", inner
+        return ("max" if (idx == -1) == asc else "min"), inner
+    return None, None
+
+
+def _is_glob(e):
+    return isinstance(e, ast.Call) and _fname(e) in ("glob", "iglob") and len(e.args) >= 1
+
+
+def _chosen_file(fn, D):
+    """the local that names the HDF5 file opened for reading, and its definitions [(value, statement, block)]"""
+    opens = [n for n in _own_walk(fn) if _is_file_open(n) and n.args and isinstance(n.args[0], ast.Name)
+             and (len(n.args) < 2 or _is_const(n.args[1], "r"))]
+    if len(opens) != 1:
+        return None, []
+    nm = opens[0].args[0].id
+    return nm, [(v, st, _enclosing_block(st)) for v, st in D.defs.get(nm, []) if v is not None]
+
+
+def _request_test(test, req):
+    """when is `test` true?  `req(e)` tells whether e denotes the requested time (-> source text of the value it has when
+    nothing is requested, normally 'None') -> 'present' | 'absent' | 'truthy' | 'falsy' | None"""
+    neg = False
+    while isinstance(test, ast.UnaryOp) and isinstance(test.op, ast.Not):
+        test, neg = test.operand, not neg
+    kind = None
+    if isinstance(test, ast.Compare) and len(test.ops) == 1:
+        op, a, b = test.ops[0], test.left, test.comparators[0]
+        if isinstance(op, (ast.In, ast.NotIn)) and _is_const(a, "timepoint") and src(b) == "kwargs":
+            kind = "present" if isinstance(op, ast.In) else "absent"
+        elif isinstance(op, (ast.Is, ast.IsNot, ast.Eq, ast.NotEq)):
+            if req(a) is None and req(b) is not None:
+                a, b = b, a
+            absent_value = req(a)
+            if absent_value is not None and src(b) == absent_value:
+                kind = "absent" if isinstance(op, (ast.Is, ast.Eq)) else "present"
+    elif req(test) is not None:
+        kind = "truthy"
+    elif isinstance(test, ast.Call) and _fname(test) == "bool" and len(test.args) == 1 and req(test.args[0]) is not None:
+        kind = "truthy"
+    if kind is not None and neg:
+        kind = {"present": "absent", "absent": "present", "truthy": "falsy", "falsy": "truthy"}[kind]
+    return kind
 
 
 def file_names(chk):
-    w = chk.func(U.GRID, "Grid.writeH5Dataset")
-    r = chk.func(U.GRID, "Grid.loadFromFile")
-    s = chk.func(U.SETUPS, "setupFromFile")
-    fmt = [n.value for n in ast.walk(w) if isinstance(n, ast.Constant) and isinstance(n.value, str) and ".h5" in n.value]
-    okw = fmt == ["{0}/{1}_{2:06}.h5"]
-    rf = [n.value for n in ast.walk(r) if isinstance(n, ast.Constant) and isinstance(n.value, str) and ("_*" in n.value or ".h5" in n.value)]
-    okr = sorted(rf) == sorted(["{0}/{1}_*", "{0}/{1}_{2:06}.h5"])
-    sf = [n.value for n in ast.walk(s) if isinstance(n, ast.Constant) and isinstance(n.value, str) and ("grid_" in n.value)]
-    oks = sorted(sf) == sorted(["grid_{:06}.h5", "{0}/grid_*"])
-    chk.ob("W2-file-name-family", w, "<folder>/<name>_<t:06>.h5 / glob <name>_* / grid_<t:06>.h5", okw and okr and oks,
-           "writer format, explicit-time reader format and glob pattern describe one family with a fixed-width (6) time field, and the "
-           "restart uses the default name convention 'grid'" if okw and okr and oks else f"formats: write={fmt} load={rf} restart={sf}",
-           file=U.GRID, func="Grid.writeH5Dataset")
-    # default name convention
-    d1 = {a.arg: src(d) for a, d in zip(w.args.args[-len(w.args.defaults):], w.args.defaults)}
-    d2 = {a.arg: src(d) for a, d in zip(r.args.args[-len(r.args.defaults):], r.args.defaults)}
-    okn = d1.get("nameConvention") == d2.get("nameConvention") == "'grid'"
-    chk.ob("W2-file-name-family", r, "nameConvention default", okn, "writer and loader share the default prefix 'grid' that the restart globs for"
-           if okn else f"defaults differ: {d1} / {d2}", file=U.GRID, func="Grid.loadFromFile")
-    # latest file = max over names: order-isomorphic to numeric order because the width is fixed
-    tr, ts = (src(f).replace(" ", "").replace("\n", ";") for f in (r, s))
-    okm = "filename=max(list_of_files)" in tr and "filename=max(list_of_files)" in ts
-    okp = "t=int(filename.split('_')[-1].split('.')[0])" in ts
-    chk.ob("W2-latest-selection", s, "max(list_of_files); t = int(name after last '_' before '.')", okm and okp,
-           "lexicographic maximum of fixed-width names is the numerically latest checkpoint; the time is parsed from the same field "
-           "the writer formats" if okm and okp else f"latest selection ok={okm}, time parser ok={okp}", file=U.SETUPS, func="setupFromFile")
-    # 'latest' is chosen only when no time was requested: a noneness test, not truthiness (time 0 is a valid checkpoint)
-    ifs = [n for n in r.body if isinstance(n, ast.If)]
-    okt = False
-    detail = "no branch on the requested time"
-    for n in ifs:
-        if "glob" in src(n):
-            t = n.test
-            okt = isinstance(t, ast.Compare) and len(t.ops) == 1 and isinstance(t.ops[0], ast.Is) and src(t.left) == "time" and \
-                isinstance(t.comparators[0], ast.Constant) and t.comparators[0].value is None and "glob" in "".join(src(x) for x in n.body)
-            detail = f"the latest-file branch is selected by `{src(t)}`"
-    chk.ob("W2-explicit-time", ifs[0] if ifs else r, "if time is None: latest else: requested", okt,
-           "the latest checkpoint is used exactly when no time is given; any given time, including 0, selects that checkpoint" if okt else
-           detail + ": an explicit time 0 would silently load the latest checkpoint", file=U.GRID, func="Grid.loadFromFile")
-    oke = contains(s, """
-if 'timepoint' in kwargs:
-    t = kwargs.pop('timepoint')
-    filename = os.path.join(foldername, 'grid_{:06}.h5'.format(t))
-""")
-    chk.ob("W2-explicit-time", s, "setupFromFile: timepoint given -> that file", oke, "a requested restart time selects exactly that file "
-           "(membership test, so time 0 works)" if oke else "requested-time branch of the restart changed", file=U.SETUPS, func="setupFromFile")
+    w0 = chk.func(U.GRID, "Grid.writeH5Dataset")
+    r0 = chk.func(U.GRID, "Grid.loadFromFile")
+    s0 = chk.func(U.SETUPS, "setupFromFile")
+    w, r, s = _work(w0), _work(r0), _work(s0)
+    Dw, Dr, Ds = _Defs(w), _Defs(r), _Defs(s)
+    KW, KR, KS = dict(file=U.GRID, func="Grid.writeH5Dataset"), dict(file=U.GRID, func="Grid.loadFromFile"), dict(file=U.SETUPS, func="setupFromFile")
+    pw, pr, ps = _params(w), _params(r), _params(s)
+
+    # ---- default name convention (signature comparison)
+    d1 = {a.arg: d for a, d in zip(w.args.args[-len(w.args.defaults):], w.args.defaults)} if w.args.defaults else {}
+    d2 = {a.arg: d for a, d in zip(r.args.args[-len(r.args.defaults):], r.args.defaults)} if r.args.defaults else {}
+    a, b = d1.get(pw[3]) if len(pw) > 3 else None, d2.get(pr[3]) if len(pr) > 3 else None
+    ok = bad = None
+    default = None
+    if _is_const(a, typ=str) and _is_const(b, typ=str):
+        ok = a.value == b.value
+        default = a.value
+        if not ok:
+            bad = f"default name of the writer is '{a.value}', of the loader '{b.value}': a plain load does not find a plain save"
+    chk.pat("W2-file-name-family", r0, "nameConvention default", ok, "writer and loader share the default prefix that the restart globs for",
+            bad, **KR)
+
+    # ---- the family of names the writer produces
+    wopen = [n for n in _own_walk(w) if _is_file_open(n) and n.args]
+    wt = _template(Dw.resolve(wopen[0].args[0])) if len(wopen) == 1 else None
+    fam = None
+    if wt is not None and len(pw) >= 4:
+        wcanon = _canon(wt, {pw[1]: "F", pw[2]: "T", pw[3]: "N"}, other="?")
+        fam = _time_field(wcanon) if "{?" not in wcanon else None
+    # the readers
+    rfile, rdefs = _chosen_file(r, Dr)
+    sfile, sdefs = _chosen_file(s, Ds)
+
+    def classify(defs, D, roles):
+        """definitions of the opened file's name -> explicit [(canon, stmt, block)], chosen [(kind, pattern canon or None, stmt, block)], other"""
+        explicit, chosen, other = [], [], []
+        for v, st, blk in defs:
+            if _is_const_none(v):
+                continue
+            kind, listing = _selection(v, st, D, blk)
+            if kind is not None or listing is not None:
+                pat = None
+                if listing is not None:
+                    g = D.resolve(listing, within=blk)
+                    if _is_glob(g):
+                        t = _template(g.args[0])
+                        pat = _canon(t, roles, other="?") if t is not None else None
+                chosen.append((kind, pat, st, blk))
+                continue
+            t = _template(D.resolve(v, within=blk))
+            if t is not None and any(p[0] == "lit" for p in t) and any(p[0] == "fld" for p in t):
+                explicit.append((_canon(t, roles), st, blk))
+            else:
+                other.append(st)
+        return explicit, chosen, other
+    rroles = {pr[1]: "F", pr[3]: "N"} if len(pr) > 3 else {}
+    if len(pr) > 2:
+        rroles[pr[2]] = "T"
+    sroles = {ps[0]: "F"}
+    rex, rch, roth = classify(rdefs, Dr, rroles)
+    sex, sch, soth = classify(sdefs, Ds, sroles)
+
+    ok = bad = None
+    padded = None
+    if fam is not None:
+        pre, spec, suf = fam
+        padded = bool(_ZERO_PAD.match(_norm_spec(spec)))
+        by_name = any(k in ("max", "min") for k, *_ in rch + sch)
+        if _norm_spec(spec) == "" and by_name:
+            bad = (f"the time is written without padding (`{wcanon}`) while the latest checkpoint is chosen by name order: with "
+                   "checkpoints at times 9 and 10 the name of time 9 is the largest, so a restart resumes from an older state")
+        elif padded and len(rex) == 1 and len(sex) == 1 and default is not None:
+            wd = wcanon.replace("{N}", default)
+            width = int(re.search(r"\d+$", _norm_spec(spec)[1:] if _norm_spec(spec)[1:2] in "<>=" else _norm_spec(spec)).group())
+            if rex[0][0] != wcanon:
+                bad = (f"the writer names a checkpoint `{wcanon}` but loadFromFile looks for `{rex[0][0]}` when a time is given: the file "
+                       "the writer wrote is not found")
+            elif sex[0][0] != wd:
+                bad = (f"the driver's checkpoints are named `{wd}` but the restart looks for `{sex[0][0]}` when a time point is "
+                       "requested: the checkpoint is not found")
+            else:
+                ok = True
+                note = f"(fixed width {width}: names sort like times while t < 10**{width})"
+    chk.pat("W2-file-name-family", w0, "<folder>/<name>_<t:06>.h5 / glob <name>_* / grid_<t:06>.h5", ok,
+            "writer, explicit-time loader and explicit-time restart build the same name; the time field is zero-padded "
+            + (note if ok else ""), bad, **KW)
+
+    # ---- latest checkpoint: the largest NAME of the family (= largest time, by the padding)
+    def latest(chosen, who, canon_w, anchor, construct, K):
+        ok = bad = None
+        if len(chosen) == 1 and fam is not None and padded is not False:
+            kind, pat, st, blk = chosen[0]
+            pre = _time_field(canon_w)[0]
+            if kind == "date":
+                bad = (f"{who} takes the most recently WRITTEN file (`{src(st)[:70]}`), not the file of the largest time: after a run was "
+                       "restarted from an earlier time point (or an old checkpoint was copied/rewritten) the newest file is not the "
+                       "latest state, and the time parsed from its name is reported as the resume time")
+            elif kind == "min":
+                bad = f"{who} takes the smallest name (`{src(st)[:70]}`): the OLDEST checkpoint is loaded instead of the latest"
+            elif kind == "listing-order":
+                bad = (f"{who} takes an element of the unsorted directory listing (`{src(st)[:70]}`): glob returns names in arbitrary "
+                       "order, so any checkpoint may be loaded")
+            elif kind == "max" and pat is not None and padded:
+                star = pat.find("*")
+                if star < 0 or "{?" in pat:
+                    pass
+                elif pat[:star] != pre or not suf_ok(pat[star + 1:]):
+                    bad = (f"{who} lists `{pat}` but the checkpoints are named `{canon_w}`: the pattern does not select exactly that "
+                           "family (other files, e.g. the potential's, can be the largest name, or no checkpoint matches)")
+                else:
+                    ok = True
+        if not (fam is not None and padded is False):
+            chk.pat("W2-latest-selection", anchor, construct, ok,
+                    "the latest checkpoint is the largest name among exactly the files of the family (zero-padded, so the largest time)",
+                    bad, **K)
+
+    def suf_ok(rest):
+        return rest == "" or (fam is not None and "*" not in rest and fam[2].endswith(rest))
+    if fam is not None:
+        latest(rch, "loadFromFile", wcanon, r0, "loadFromFile: no time given -> file of the largest time", KR)
+        latest(sch, "the restart", wcanon.replace("{N}", default or "{N}"), s0,
+               "max(list_of_files); t = int(name after last '_' before '.')", KS)
+    else:
+        chk.ob("W2-latest-selection", s0, "max(list_of_files); t = int(name after last '_' before '.')", None,
+               "the writer's name expression is not recognised: cannot decide", **KS)
+
+    # ---- the time the restart returns: requested, or parsed from the chosen name
+    ok = bad = None
+    rets = [n for n in _own_walk(s) if isinstance(n, ast.Return) and isinstance(n.value, ast.Tuple) and len(n.value.elts) == 3]
+    if len(rets) == 1 and isinstance(rets[0].value.elts[2], ast.Name) and len(sch) == 1 and fam is not None and sfile:
+        tv = rets[0].value.elts[2].id
+        blk = sch[0][3]
+        parsed = [v for v, st in Ds.defs.get(tv, []) if v is not None and blk is not None and any(st is x for x in blk)]
+        sep = fam[0][-1:]
+        if len(parsed) == 1:
+            ok, bad = _time_parser(parsed[0], sfile, sep, fam[2])
+    chk.pat("W2-latest-selection", s0, "restart: returned time = int(piece of the chosen name between separator and extension)", ok,
+            "the time returned for the latest checkpoint is the time field of its name", bad, **KS)
+
+    # ---- a requested time is honoured, also time 0
+    def request(fn, D, explicit, chosen, is_req, who, anchor, construct, K, zero):
+        ok = bad = None
+        if len(explicit) == 1 and len(chosen) == 1:
+            est, cst = explicit[0][1], chosen[0][2]
+            for n in _own_walk(fn):
+                if not isinstance(n, ast.If):
+                    continue
+                in_body = lambda x: any(x is y for b_ in n.body for y in ast.walk(b_))
+                in_else = lambda x: any(x is y for b_ in n.orelse for y in ast.walk(b_))
+                if (in_body(est) and in_else(cst)) or (in_else(est) and in_body(cst)):
+                    kind = _request_test(n.test, lambda e_: is_req(e_, n))
+                    explicit_when_true = in_body(est)
+                    if kind in ("present", "absent"):
+                        if (kind == "present") == explicit_when_true:
+                            ok = True
+                        else:
+                            bad = f"{who} uses the requested file exactly when NO time is requested (`{src(n.test)}`)"
+                    elif kind in ("truthy", "falsy"):
+                        if (kind == "truthy") == explicit_when_true:
+                            bad = (f"{who} decides by the truth value of the request (`{src(n.test)}`): {zero} counts as 'no request' and "
+                                   "the latest checkpoint is loaded silently instead")
+                        else:
+                            bad = f"{who} uses the requested file exactly when the request is false (`{src(n.test)}`)"
+        chk.pat("W2-explicit-time", anchor, construct, ok,
+                "the latest checkpoint is used exactly when no time is requested; any requested time, including 0, selects that checkpoint",
+                bad, **K)
+
+    def loader_req(e_, ifnode):
+        return "None" if (isinstance(e_, ast.Name) and len(pr) > 2 and e_.id == pr[2]) else None
+
+    def restart_req(e_, ifnode):
+        """is e_ the popped request? -> source of its default ('None' when absent/None)"""
+        v = Ds.resolve(e_, within=_enclosing_block(ifnode))
+        if isinstance(v, ast.Name) and v.id not in Ds.params:
+            v = _reaching(Ds, v.id, ifnode) or v
+        if isinstance(v, ast.Call) and isinstance(v.func, ast.Attribute) and v.func.attr in ("pop", "get") and src(v.func.value) == "kwargs" \
+                and v.args and _is_const(v.args[0], "timepoint"):
+            if len(v.args) == 1:
+                return "None" if v.func.attr == "get" else None
+            return "None" if _is_const_none(v.args[1]) else src(v.args[1])
+        return None
+    ifs = [n for n in r0.body if isinstance(n, ast.If)]
+    as_latest = lambda ch, oth: ch if ch else [(None, None, st, None) for st in oth]     # an unclassified choice is still the 'latest' arm
+    request(r, Dr, rex, as_latest(rch, roth), loader_req, "loadFromFile", ifs[0] if ifs else r0, "if time is None: latest else: requested", KR,
+            "an explicit time 0")
+    request(s, Ds, sex, as_latest(sch, soth), restart_req, "the restart", s0, "setupFromFile: timepoint given -> that file", KS,
+            "timepoint=0 (the checkpoint every run writes first)")
+
+
+def _time_parser(e, fname, sep, suffix):
+    """is `e` the integer between the last `sep` and the extension of the name held by `fname`? -> (ok, bad)"""
+    if not (isinstance(e, ast.Call) and _fname(e) == "int" and len(e.args) == 1):
+        return None, None
+    e = e.args[0]
+
+    def split_call(x):
+        """X.split(c)[i] / X.rsplit(c, n)[i] -> (X, method, c, n, i)"""
+        if isinstance(x, ast.Subscript) and isinstance(x.value, ast.Call) and isinstance(x.value.func, ast.Attribute) \
+                and x.value.func.attr in ("split", "rsplit") and x.value.args and _is_const(x.value.args[0], typ=str):
+            c = x.value
+            n = c.args[1].value if len(c.args) > 1 and _is_const(c.args[1], typ=int) else None
+            return c.func.value, c.func.attr, c.args[0].value, n, _const_index(x.slice)
+        return None
+    outer = split_call(e)
+    if outer is None:
+        return None, None
+    x1, m1, c1, n1, i1 = outer
+    inner = split_call(x1)
+    dot = suffix[:1]
+    # form A: name.split(sep)[-1].split('.')[0]
+    if inner is not None and src(inner[0]) == fname:
+        x0, m0, c0, n0, i0 = inner
+        last = i0 == -1 or (m0 == "rsplit" and n0 == 1 and i0 == 1)
+        if c0 != sep:
+            return None, (f"the time is parsed after the last `{c0}` of the name, but the writer separates the time with `{sep}`")
+        if not last:
+            if isinstance(i0, int) and i0 >= 0:
+                return None, (f"the time is taken from piece {i0} of the whole path split at `{sep}`: a folder name that contains `{sep}` "
+                              "(the default folder is `simulation_<i>`) shifts the pieces and another text is parsed as the time")
+            return None, None
+        if sep in suffix or c1 != dot or not dot or i1 != 0 or m1 != "split":
+            return None, None
+        return True, None
+    # form B: splitext(basename(name))[0].rsplit(sep, 1)[1]
+    if isinstance(x1, ast.Subscript) and _const_index(x1.slice) == 0 and isinstance(x1.value, ast.Call) and _fname(x1.value) == "splitext" \
+            and len(x1.value.args) == 1:
+        b = x1.value.args[0]
+        if isinstance(b, ast.Call) and _fname(b) == "basename" and len(b.args) == 1:
+            b = b.args[0]
+        if src(b) == fname and suffix.count(".") == 1 and suffix.startswith("."):
+            last = i1 == -1 or (m1 == "rsplit" and n1 == 1 and i1 == 1)
+            if c1 != sep:
+                return None, f"the time is parsed after the last `{c1}` of the name, but the writer separates the time with `{sep}`"
+            if last:
+                return True, None
+    return None, None
+
+
+# =========================================================================================================
+# G3: the parameter file reproduces the constants
+# =========================================================================================================
+def _add_chain(e):
+    if isinstance(e, ast.BinOp) and isinstance(e.op, ast.Add):
+        return _add_chain(e.left) + _add_chain(e.right)
+    return [e]
+
+
+def _attr_source(e, D):
+    """what a printer iterates over -> (kind 'dir' | 'dict' | None, [(variable, [conditions])] filters applied on the way)"""
+    filters = []
+    for _ in range(6):
+        if isinstance(e, ast.Call) and isinstance(e.func, ast.Name) and e.func.id in ("sorted", "list", "tuple") and len(e.args) == 1:
+            e = e.args[0]
+        elif isinstance(e, ast.Call) and isinstance(e.func, ast.Attribute) and e.func.attr in ("keys", "items") and not e.args:
+            e = e.func.value
+        elif isinstance(e, (ast.ListComp, ast.GeneratorExp)) and len(e.generators) == 1 and isinstance(e.generators[0].target, ast.Name) \
+                and isinstance(e.elt, ast.Name) and e.elt.id == e.generators[0].target.id:
+            filters.append((e.elt.id, [c for t in e.generators[0].ifs for c in _conjuncts(t)]))
+            e = e.generators[0].iter
+        elif isinstance(e, ast.Name) and D.one(e.id) is not None:
+            e = D.one(e.id)
+        else:
+            break
+    if isinstance(e, ast.Call) and isinstance(e.func, ast.Name) and e.func.id == "dir" and len(e.args) == 1 and src(e.args[0]) == "self":
+        return "dir", filters
+    if (isinstance(e, ast.Call) and isinstance(e.func, ast.Name) and e.func.id == "vars" and len(e.args) == 1 and src(e.args[0]) == "self") \
+            or src(e) == "self.__dict__":
+        return "dict", filters
+    return None, filters
+
+
+def _conjuncts(t):
+    if isinstance(t, ast.BoolOp) and isinstance(t.op, ast.And):
+        return [c for v in t.values for c in _conjuncts(v)]
+    return [t]
+
+
+def _printer(fn, D):
+    """static classification of Constants.__str__ -> (ok, bad): is the text a JSON object of exactly the public data attributes?"""
+    lists = {n.func.value.id for n in _own_walk(fn) if isinstance(n, ast.Call) and isinstance(n.func, ast.Attribute)
+             and n.func.attr == "append" and isinstance(n.func.value, ast.Name)}
+    rets = [n for n in _own_walk(fn) if isinstance(n, ast.Return) and n.value is not None]
+    if len(rets) != 1:
+        return None, None
+    ret = D.resolve(rets[0].value, stop=tuple(lists))
+    K, conds, entry, frame = None, [], None, None         # key variable, filter conditions, entry expression, (head, sep, tail, trailing)
+    source = None
+
+    def rename(e, var):
+        return _Sub({var: "K"}).visit(_clone(e)) if var != "K" else e
+    loops = [n for n in _own_walk(fn) if isinstance(n, ast.For) and isinstance(n.target, ast.Name)]
+    joins = [n for n in ast.walk(ret) if isinstance(n, ast.Call) and isinstance(n.func, ast.Attribute) and n.func.attr == "join"
+             and isinstance(n.func.value, ast.Constant) and len(n.args) == 1]
+    dumps = ret if isinstance(ret, ast.Call) and _fname(ret) == "dumps" and len(ret.args) >= 1 and isinstance(ret.args[0], ast.DictComp) else None
+    if dumps is not None:
+        dc = dumps.args[0]
+        if len(dc.generators) != 1 or not isinstance(dc.generators[0].target, ast.Name):
+            return None, None
+        var = dc.generators[0].target.id
+        source, filters = _attr_source(dc.generators[0].iter, D)
+        conds = [rename(c, v) for v, cs in filters for c in cs] + [rename(c, var) for t in dc.generators[0].ifs for c in _conjuncts(t)]
+        if src(rename(dc.key, var)) != "K" or src(rename(dc.value, var)) != "getattr(self, K)":
+            return None, None
+        entry, frame = "json", ("{", ",", "}", "")
+    elif len(loops) == 1:
+        lp = loops[0]
+        var = lp.target.id
+        source, filters = _attr_source(lp.iter, D)
+        conds = [rename(c, v) for v, cs in filters for c in cs]
+        emits = []
+        for n in ast.walk(lp):
+            if isinstance(n, ast.AugAssign) and isinstance(n.op, ast.Add) and isinstance(n.target, ast.Name):
+                emits.append((n, n.target.id, n.value, "str"))
+            elif isinstance(n, ast.Expr) and isinstance(n.value, ast.Call) and isinstance(n.value.func, ast.Attribute) \
+                    and n.value.func.attr == "append" and isinstance(n.value.func.value, ast.Name) and len(n.value.args) == 1:
+                emits.append((n, n.value.func.value.id, n.value.args[0], "list"))
+        if len(emits) != 1:
+            return None, None
+        st, acc, e, how = emits[0]
+        for t, pol, k in guards_of(st, stop=lp):
+            if k != "if" or not pol:
+                return None, None
+            conds.extend(rename(D.resolve(c, stop=(var,)), var) for c in _conjuncts(t))
+        entry = rename(D.resolve(e, stop=(var,)), var)
+        if how == "str":
+            init = [v for v, s_ in D.defs.get(acc, []) if v is not None and _is_const(v, typ=str)]
+            strip = [v for v, s_ in D.defs.get(acc, []) if isinstance(v, ast.BinOp) and isinstance(v.op, ast.Add) and isinstance(v.left, ast.Subscript)
+                     and src(v.left.value) == acc and isinstance(v.left.slice, ast.Slice) and v.left.slice.lower is None
+                     and _const_index(v.left.slice.upper) is not None and _is_const(v.right, typ=str) and _pos(s_) > _pos(lp)]
+            if len(init) != 1 or src(ret) != acc:
+                return None, None
+            frame = (init[0].value, None, strip[0].right.value if len(strip) == 1 else None,
+                     -_const_index(strip[0].left.slice.upper) if len(strip) == 1 else 0)
+        else:
+            if len(joins) != 1 or src(joins[0].args[0]) != acc:
+                return None, None
+            ch = _add_chain(ret)
+            if len(ch) != 3 or ch[1] is not joins[0] or not _is_const(ch[0], typ=str) or not _is_const(ch[2], typ=str):
+                return None, None
+            frame = (ch[0].value, joins[0].func.value.value, ch[2].value, 0)
+    elif len(joins) == 1 and isinstance(joins[0].args[0], (ast.GeneratorExp, ast.ListComp)) and len(joins[0].args[0].generators) == 1 \
+            and isinstance(joins[0].args[0].generators[0].target, ast.Name):
+        g = joins[0].args[0]
+        var = g.generators[0].target.id
+        source, filters = _attr_source(g.generators[0].iter, D)
+        conds = [rename(c, v) for v, cs in filters for c in cs] + [rename(c, var) for t in g.generators[0].ifs for c in _conjuncts(t)]
+        entry = rename(g.elt, var)
+        ch = _add_chain(ret)
+        if len(ch) != 3 or ch[1] is not joins[0] or not _is_const(ch[0], typ=str) or not _is_const(ch[2], typ=str):
+            return None, None
+        frame = (ch[0].value, joins[0].func.value.value, ch[2].value, 0)
+    else:
+        return None, None
+
+    # ---- which attributes
+    if source == "dict":
+        return None, ("only the instance dictionary is printed (vars(self) / self.__dict__): constants that live on the class and the "
+                      "properties rMin, rMax, npts, splineDegrees are missing from the saved file, a restart reads the defaults for them")
+    if source != "dir":
+        return None, None
+    texts = [src(c) for c in conds]
+    callable_ok = [t for t in texts if t in ("not callable(getattr(self, K))",)]
+    public_ok = [t for t in texts if t in ("K[0] != '_'", "not K.startswith('_')", "K[:1] != '_'")]
+    rest = [t for t in texts if t not in callable_ok and t not in public_ok]
+    if rest:
+        return None, None
+    if not callable_ok:
+        return None, ("methods are not filtered out: the text contains `<bound method ...>` values, which is not JSON; get_constants "
+                      "cannot read the saved parameter file")
+    if not public_ok:
+        return None, ("names starting with `_` are not filtered out: private storage and dunder attributes are printed, the text is not "
+                      "a JSON object of the constants")
+    # ---- shape of one entry and of the whole text
+    head, sep, tail, cut = frame
+    if entry != "json":
+        t = _template(entry)
+        if t is None:
+            return None, None
+        shape = [("lit", p[1]) if p[0] == "lit" else ("fld", p[1], p[2]) for p in t]
+        if len(shape) >= 3 and shape[0][0] == "fld" and shape[0][1] == "K":
+            return None, "the keys are printed without double quotes: the text is not JSON and get_constants (json.load) fails on it"
+        if len(shape) >= 4 and shape[0] == ("lit", "'") and shape[1][:2] == ("fld", "K"):
+            return None, "the keys are printed in single quotes: the text is not JSON and get_constants (json.load) fails on it"
+        if not (len(shape) in (4, 5) and shape[0] == ("lit", '"') and shape[1] == ("fld", "K", "") and shape[2][0] == "lit"
+                and shape[2][1].replace(" ", "") == '":' and shape[3] == ("fld", "getattr(self, K)", "")):
+            return None, None
+        trailing = shape[4][1] if len(shape) == 5 and shape[4][0] == "lit" else ""
+        if len(shape) == 5 and shape[4][0] != "lit":
+            return None, None
+        if sep is None:
+            # accumulated string: every entry carries its separator, the last one is cut off before the closing brace
+            if "," not in trailing or trailing.strip() != "," or tail is None or cut != len(trailing):
+                if tail is not None and cut != len(trailing) and trailing.strip() == ",":
+                    return None, (f"{cut} character(s) are cut from the end before the closing brace but every entry ends with "
+                                  f"{len(trailing)} separator character(s): the text is not JSON")
+                return None, None
+        elif trailing or sep.strip() != ",":
+            return None, None
+    if head.strip() != "{" or tail is None or tail.strip() != "}":
+        return None, None
+    return True, None
+
+
+def _literal_names(fn, D, roles, calls, other="?"):
+    """canonical templates of the first argument of the calls selected by `calls(node)`"""
+    out = []
+    for n in _own_walk(fn):
+        if isinstance(n, ast.Call) and calls(n) and n.args:
+            t = _template(D.resolve(n.args[0], within=_enclosing_block(n)))
+            out.append((_canon(t, roles, other=other) if t is not None else None, n))
+    return out
+
+
+def _pos(st):
+    return (getattr(st, "lineno", 0), getattr(st, "col_offset", 0))
 
 
 def constants_round_trip(chk):
     mod = chk.mod(U.CONSTANTS)
     cls = mod.cls("Constants")
-    gc = chk.func(U.CONSTANTS, "get_constants")
+    gc0 = chk.func(U.CONSTANTS, "get_constants")
     # write sets of the setters
     writes = {}
     for st in cls.body:
@@ -121,6 +1476,8 @@ def constants_round_trip(chk):
             for n in ast.walk(st):
                 if isinstance(n, ast.Attribute) and isinstance(n.value, ast.Name) and n.value.id == "self" and isinstance(n.ctx, ast.Store):
                     ws.add(n.attr)
+                if isinstance(n, ast.Call) and _fname(n) == "setattr" and len(n.args) == 3 and src(n.args[0]) == "self" and _is_const(n.args[1], typ=str):
+                    ws.add(n.args[1].value)
             writes[st.name] = ws
     plain = set()
     for st in cls.body:
@@ -139,62 +1496,174 @@ def constants_round_trip(chk):
                if not foreign else f"setting `{k}` also overwrites the independent key(s) {sorted(foreign)}: a file that gives `{sorted(foreign)[0]}` "
                f"explicitly reads back differently depending on whether `{k}` comes before or after it (get_constants pops keys in "
                "reverse order; setupCylindricalGrid re-sets every attribute in dir() order)", file=U.CONSTANTS, func=f"Constants.{k}.setter")
-    if n < 4:
+    if n < 2:
         raise AnalysisError(f"C18: only {n} property setters found in Constants (4 confirmed by reading)")
-    # printer prints every public non-callable attribute as "key":value
-    st_ = chk.func(U.CONSTANTS, "Constants.__str__")
-    t = src(st_).replace(" ", "").replace("\n", ";")
-    okp = "forobjindir(self):" in t and "ifnotcallable(val)andobj[0]!='_':" in t and "s+='\"'+obj+'\":'+'{}'.format(val)+',\\n'" in t
-    chk.ob("G3-printer", st_, "__str__: every public non-callable attribute", okp,
-           "the saved parameter file lists every public data attribute (properties included) as \"key\":value" if okp else
-           "the parameter printer changed", file=U.CONSTANTS, func="Constants.__str__")
-    # parser: defaults are applied only after all keys of the file have been read (dependency order = file values first)
-    body = gc.body
-    idx_loop = [k for k, s_ in enumerate(body) if isinstance(s_, ast.While)]
-    idx_def = [k for k, s_ in enumerate(body) if "set_defaults" in src(s_)]
-    ctor = [s_ for s_ in body if isinstance(s_, ast.Assign) and src(s_.targets[0]) == "constants"]
-    okc = bool(ctor) and src(ctor[0].value).replace(" ", "") in ("Constants(False)", "Constants(setup=False)")
-    oko = len(idx_loop) == 1 and len(idx_def) == 1 and idx_def[0] > idx_loop[0] and okc
-    chk.ob("G3-defaults-after-file", gc, "set_defaults() after the parse loop", oko,
-           "expressions in the file are evaluated against values given in the file (a key that is not yet read defers the "
-           "expression); defaults only fill what the file leaves unset" if oko else
-           "defaults are installed before the file is read: an expression that refers to a key given later in the file is evaluated "
-           "with the default instead (result depends on key order)", file=U.CONSTANTS, func="get_constants")
-    tg = src(gc).replace(" ", "").replace("\n", ";")
-    okl = contains(gc, "res = eval_expr(item[1], constants)\nif res is None:\n    pass".replace("\n    pass", "")) if False else (
-        contains(gc, "res = eval_expr(item[1], constants)") and contains(gc, "unmatched[item[0]] = item[1]") and
-        contains(gc, "data, unmatched = unmatched, data") and contains(gc, "assert len(data) < n") and
-        any(isinstance(n, ast.If) and contains(n.test, "res is None") for n in ast.walk(gc)))
-    chk.ob("G3-dependency-order", gc, "unresolved expressions are retried until all keys are read", okl,
-           "an expression whose operands are not yet known is deferred and retried, with a progress assertion" if okl else
-           "dependency-ordered parsing changed", file=U.CONSTANTS, func="get_constants")
-    ee = chk.func(U.CONSTANTS, "eval_expr")
-    te = src(ee).replace(" ", "").replace("\n", ";")
-    oke = contains(ee, """
-if hasattr(constants, el):
-    val = getattr(constants, el)
-    if val is not None:
-        f[i] = str(val)
-    else:
-        return None
-""")
-    chk.ob("G3-dependency-order", ee, "eval_expr: unknown operand -> None (defer)", oke,
-           "a symbolic operand that is still unset makes the expression deferred, never silently replaced" if oke else
-           "eval_expr no longer defers expressions with unset operands", file=U.CONSTANTS, func="eval_expr")
-    # setupSave writes the file on the root only, into the broadcast folder
-    ss = chk.func(U.SAVING, "setupSave")
-    tsv = src(ss).replace(" ", "").replace("\n", ";")
-    oks = "filename='{0}/initParams.json'.format(foldername);print(constants,file=open(filename,\"w\"))" in tsv.replace("'w'", '"w"')
-    sff = chk.func(U.SETUPS, "setupFromFile")
-    okr = 'constantFile="{0}/initParams.json".format(foldername)' in src(sff).replace(" ", "").replace("'", '"')
-    chk.ob("W2-file-name-family", ss, "initParams.json written by setupSave, read by setupFromFile", oks and okr,
-           "the parameter file name agrees between writer and restart" if oks and okr else "parameter file name differs", file=U.SAVING,
-           func="setupSave")
+
+    # ---- printer: classified from its syntax tree
+    st0 = chk.func(U.CONSTANTS, "Constants.__str__")
+    st_ = _work(st0)
+    ok, bad = _printer(st_, _Defs(st_))
+    chk.pat("G3-printer", st0, "__str__: every public non-callable attribute", ok,
+            "the text is `{` + one `\"key\":value` entry per name of dir(self) that is public and not callable, comma separated, + `}`: "
+            "a JSON object of exactly the public data attributes (class-level values and properties included)", bad,
+            file=U.CONSTANTS, func="Constants.__str__")
+
+    # ---- parser: defaults are applied only after all keys of the file have been read
+    gc = _work(gc0)
+    D = _Defs(gc)
+    KG = dict(file=U.CONSTANTS, func="get_constants")
+    cobj = None
+    for nm, ds in D.defs.items():
+        if any(isinstance(v, ast.Call) and _fname(v) == "Constants" for v, _ in ds if v is not None):
+            cobj = nm
+    loops = [n for n in _own_walk(gc) if isinstance(n, (ast.While, ast.For)) and not isinstance(parent(n), (ast.While, ast.For))
+             and any(isinstance(c, ast.Call) and _fname(c) in ("setattr", "eval_expr") for c in ast.walk(n))]
+    ok = bad = None
+    if cobj is not None and len(loops) == 1:
+        ctor = [v for v, _ in D.defs[cobj] if v is not None][0]
+        a0 = _arg(ctor, 0, "setup")
+        dcalls = [n for n in _own_walk(gc) if isinstance(n, ast.Call) and _fname(n) == "set_defaults" and isinstance(n.func, ast.Attribute)
+                  and src(n.func.value) == cobj]
+        lp = loops[0]
+        inside = {id(x) for x in ast.walk(lp)}
+        early = [c for c in dcalls if id(c) in inside or _pos(c) < _pos(lp)]
+        if a0 is None or _is_const(a0, True):
+            bad = ("the constants object is created with its defaults installed: an expression in the file that refers to a key given "
+                   "later in the file is evaluated with the default instead (result depends on key order)")
+        elif early:
+            bad = ("defaults are installed before the file has been read completely: an expression that refers to a key given later in the "
+                   "file is evaluated with the default instead of being deferred (result depends on key order)")
+        elif _is_const(a0, False) and dcalls and all(not guards_of(c) for c in dcalls):
+            ok = True
+    chk.pat("G3-defaults-after-file", gc0, "set_defaults() after the parse loop", ok,
+            "expressions in the file are evaluated against values given in the file (a key that is not yet read defers the "
+            "expression); defaults only fill what the file leaves unset", bad, **KG)
+
+    # ---- deferral of expressions with unset operands
+    ok = bad = None
+    evs = [n for n in _own_walk(gc) if isinstance(n, ast.Assign) and isinstance(n.value, ast.Call) and _fname(n.value) == "eval_expr"
+           and isinstance(n.targets[0], ast.Name)]
+    if len(evs) == 1 and len(loops) == 1:
+        res = evs[0].targets[0].id
+        tests = [n for n in ast.walk(loops[0]) if isinstance(n, ast.If) and (same_expr(n.test, f"{res} is None") or same_expr(n.test, f"{res} is not None"))]
+        if not tests:
+            if not any(isinstance(n, (ast.If, ast.IfExp, ast.While, ast.Assert)) and any(isinstance(x, ast.Name) and x.id == res for x in ast.walk(n.test))
+                       for n in ast.walk(loops[0])):
+                bad = ("the result of eval_expr is never tested: an expression whose operands are not yet known is stored as None "
+                       "instead of being retried")
+        elif len(tests) == 1:
+            t = tests[0]
+            arm = t.body if same_expr(t.test, f"{res} is None") else t.orelse
+            other = t.orelse if arm is t.body else t.body
+            deferred = [a for s_ in arm for a in ast.walk(s_) if isinstance(a, ast.Assign) and isinstance(a.targets[0], ast.Subscript)]
+            sets = [c for s_ in other for c in ast.walk(s_) if isinstance(c, ast.Call) and _fname(c) == "setattr"]
+            if len(deferred) == 1 and sets:
+                pend = src(deferred[0].targets[0].value)
+                outer = loops[0]
+                retried = [a for a in ast.walk(outer) if isinstance(a, ast.Assign) and any(
+                    isinstance(x, ast.Name) and x.id == pend and isinstance(x.ctx, ast.Load) for x in ast.walk(a.value))
+                    and a is not deferred[0]]
+                progress = [a for a in ast.walk(outer) if isinstance(a, ast.Assert) and isinstance(a.test, ast.Compare)
+                            and isinstance(a.test.ops[0], (ast.Lt, ast.Gt)) and "len(" in src(a.test)]
+                uses = [x for st_ in ast.walk(outer) if isinstance(st_, ast.stmt) and not isinstance(st_, (ast.Assert, ast.While, ast.For, ast.If))
+                        and st_ is not deferred[0] for x in ast.walk(st_) if isinstance(x, ast.Name) and x.id == pend]
+                if not retried and not uses:
+                    bad = (f"deferred expressions are collected in `{pend}` but never taken up again: a key that refers to a later key "
+                           "is lost")
+                elif isinstance(outer, ast.While) and progress:
+                    ok = True
+    chk.pat("G3-dependency-order", gc0, "unresolved expressions are retried until all keys are read", ok,
+            "an expression whose operands are not yet known is deferred and retried, with a progress assertion", bad, **KG)
+
+    ee0 = chk.func(U.CONSTANTS, "eval_expr")
+    ee = _work(ee0)
+    pe = _params(ee)
+    ok = bad = None
+    gets = [n for n in _own_walk(ee) if isinstance(n, ast.Assign) and isinstance(n.value, ast.Call) and _fname(n.value) == "getattr"
+            and isinstance(n.targets[0], ast.Name) and len(pe) > 1 and n.value.args and src(n.value.args[0]) == pe[1]]
+    if len(gets) == 1:
+        val = gets[0].targets[0].id
+        blk = _enclosing_block(gets[0]) or []
+        stores = [n for n in ast.walk(ee) if isinstance(n, ast.Name) and n.id == val and isinstance(n.ctx, ast.Store)]
+        rets = [n for s_ in blk for n in ast.walk(s_) if isinstance(n, ast.Return) and (n.value is None or _is_const_none(n.value))]
+        if len(stores) > 1:
+            other = [parent(n) for n in stores if parent(n) is not gets[0]][0]
+            gs = [(t, pol) for t, pol, k in guards_of(other, stop=parent(gets[0])) if k == "if"]
+            if gs and ((same_expr(gs[0][0], f"{val} is None") and gs[0][1]) or (same_expr(gs[0][0], f"{val} is not None") and not gs[0][1])
+                       or (same_expr(gs[0][0], f"not {val}") and gs[0][1])):
+                bad = (f"an operand that is still unset is replaced (`{src(other)[:70]}`) instead of deferring the expression: it is "
+                       "evaluated with a value the file may override later (result depends on key order)")
+        elif not rets:
+            if not any(isinstance(n, ast.Raise) for s_ in blk for n in ast.walk(s_)):
+                bad = ("eval_expr never returns None for an unset operand: the expression is evaluated with `None` in place of a key "
+                       "that comes later in the file")
+        else:
+            for r_ in rets:
+                gs = [(t, pol) for t, pol, k in guards_of(r_, stop=parent(gets[0])) if k == "if"]
+                if gs and ((same_expr(gs[0][0], f"{val} is not None") and not gs[0][1]) or (same_expr(gs[0][0], f"{val} is None") and gs[0][1])):
+                    ok = True
+    chk.pat("G3-dependency-order", ee0, "eval_expr: unknown operand -> None (defer)", ok,
+            "a symbolic operand that is still unset makes the expression deferred, never silently replaced", bad,
+            file=U.CONSTANTS, func="eval_expr")
+
+    # ---- the parameter file: written by setupSave, read by the restart, looked for by the driver
+    ss0 = chk.func(U.SAVING, "setupSave")
+    ss = _work(ss0)
+    Dss = _Defs(ss)
+    pss = _params(ss)
+    wrote = None
+    if len(pss) > 1:
+        opens = _literal_names(ss, Dss, {pss[1]: "F"}, lambda n: isinstance(n.func, ast.Name) and n.func.id == "open" and len(n.args) > 1
+                               and _is_const(n.args[1], typ=str) and "w" in n.args[1].value)
+        prints = [n for n in _own_walk(ss) if isinstance(n, ast.Call) and isinstance(n.func, ast.Name) and n.func.id == "print" and n.args
+                  and src(n.args[0]) == pss[0]]
+        if len(opens) == 1 and len(prints) == 1:
+            f = next((k.value for k in prints[0].keywords if k.arg == "file"), None)
+            if f is not None and Dss.resolve(f, within=_enclosing_block(prints[0])) is not None and \
+                    src(Dss.resolve(f, within=_enclosing_block(prints[0]))) == src(Dss.resolve(opens[0][1], within=_enclosing_block(opens[0][1]))):
+                wrote = opens[0][0]
+    sf = _work(chk.func(U.SETUPS, "setupFromFile"))
+    Dsf = _Defs(sf)
+    psf = _params(sf)
+    read = None
+    gcalls = [n for n in _own_walk(sf) if isinstance(n, ast.Call) and _fname(n) == "get_constants" and len(n.args) == 1]
+    if len(gcalls) == 1 and isinstance(gcalls[0].args[0], ast.Name) and len(psf) > 1 and gcalls[0].args[0].id == psf[1]:
+        # the parameter, replaced under `if constantFile is None`
+        ds = [(v, st) for v, st in Dsf.defs.get(psf[1], []) if v is not None]
+        if len(ds) == 1 and any(same_expr(t, f"{psf[1]} is None") and pol for t, pol, k in guards_of(ds[0][1])):
+            t = _template(Dsf.resolve(ds[0][0]))
+            read = _canon(t, {psf[0]: "F"}, other="?") if t is not None else None
+    ok = bad = None
+    if wrote and read and "{?" not in wrote + read:
+        ok = wrote == read
+        if not ok:
+            bad = f"setupSave writes the parameters to `{wrote}` but the restart reads `{read}`: a saved run cannot be restarted"
+    chk.pat("W2-file-name-family", ss0, "initParams.json written by setupSave, read by setupFromFile", ok,
+            "the root process prints the constants into the file whose name the restart passes to get_constants", bad,
+            file=U.SAVING, func="setupSave")
+    # the driver restarts only when it finds that file
+    mn = _work(chk.func(U.DRIVER, "main"))
+    Dm = _Defs(mn)
+    looked = [c for c, n in _literal_names(mn, Dm, {}, lambda n: _fname(n) == "exists", other="F") if c is not None and c.count("{F}") == 1]
+    ok = bad = None
+    if wrote and looked and "{?" not in wrote:
+        ok = wrote in looked
+        if not ok:
+            bad = (f"the driver decides to restart when `{looked[0]}` exists, but setupSave writes `{wrote}`: a run is never continued, it "
+                   "starts again from the initial condition")
+    chk.pat("W2-file-name-family", mn, "driver: restart when <folder>/initParams.json exists", ok,
+            "the driver looks for the parameter file under the name setupSave writes", bad, file=U.DRIVER, func="main")
 
 
-def zero_divisors(chk):
+def _is_const_none(e):
+    return isinstance(e, ast.Constant) and e.value is None
+
+
+# =========================================================================================================
+# the driver: zero divisors, restart book-keeping, save steps
+# =========================================================================================================
+def zero_divisors(chk, fn):
     """G-zero: no division whose divisor can still hold the literal 0 it was initialised with"""
-    fn = chk.func(U.DRIVER, "main")
     # candidate counters: names initialised with literal 0 at function level and incremented somewhere
     zeros = {}
     for st in fn.body:
@@ -235,7 +1704,11 @@ def zero_divisors(chk):
                     for t in st.targets:
                         if isinstance(t, ast.Name) and t.id in state:
                             v = st.value
-                            state[t.id] = {"zero"} if isinstance(v, ast.Constant) and v.value == 0 else {"unknown"}
+                            inc = increment_of(st)
+                            if inc and inc[0] == t.id and isinstance(inc[1], ast.Constant) and isinstance(inc[1].value, (int, float)) and inc[1].value > 0:
+                                state[t.id] = {"pos"} if state[t.id] <= {"zero", "pos"} else {"unknown"}
+                            else:
+                                state[t.id] = {"zero"} if isinstance(v, ast.Constant) and v.value == 0 else {"unknown"}
                 elif isinstance(st, ast.AugAssign):
                     check_exprs(st.value, state)
                     if isinstance(st.target, ast.Name) and st.target.id in state:
@@ -277,64 +1750,303 @@ def zero_divisors(chk):
         raise AnalysisError("C18: no division by a zero-initialised counter found in the driver (rule would be vacuous)")
 
 
-def restart_bookkeeping(chk):
-    fn = chk.func(U.DRIVER, "main")
-    t = src(fn).replace(" ", "").replace("\n", ";")
-    ok1 = "ti=t//constants.dt" in t and "tN=int(tEnd//constants.dt)" in t
-    chk.ob("W3-restart-index", fn, "ti = t // dt from the loaded time", ok1, "the time index resumes from the time returned by the set-up "
-           "(0 for a new run, the checkpoint's time for a restart)" if ok1 else "time index is no longer derived from the loaded time",
-           file=U.DRIVER, func="main")
-    loops = [n for n in fn.body if isinstance(n, ast.While)]
-    ok2 = False
-    if len(loops) == 1:
-        lp = loops[0]
-        from ..core import increment_of
-        names = {increment_of(n)[0]: src(increment_of(n)[1]) for n in lp.body if increment_of(n)}
-        ok2 = names.get("t") == "fullStep" and names.get("ti") == "1" and names.get("nLoops") == "1" and \
-            src(lp.test).replace(" ", "").replace("(", "").replace(")", "") == "ti<tNandtimeForLoop" and "fullStep=constants.dt" in t
-    chk.ob("W3-restart-index", loops[0] if loops else fn, "one step: t += dt, ti += 1", ok2,
-           "time and time index advance together, once per iteration, top-level in the loop body" if ok2 else
-           "time/time-index advancement changed", file=U.DRIVER, func="main")
-    # save step condition and final save
-    ok3 = contains(fn, "saveStepCut = saveStep - 1") and any(isinstance(n, ast.If) and contains(n.test, "ti % saveStep == saveStepCut") for n in ast.walk(fn)) \
-        and any(isinstance(n, ast.If) and contains(n.test, "ti % saveStep != 0") for n in ast.walk(fn))
-    chk.ob("W3-save-steps", fn, "save when ti % saveStep == saveStep-1; final save when ti % saveStep != 0", ok3,
-           "a checkpoint is written after every saveStep-th step and at the end of the run if the last step was not a save step"
-           if ok3 else "save-step conditions changed", file=U.DRIVER, func="main")
-    # both grid and phi are written with the same time at every save site
-    writes = [c for c in ast.walk(fn) if isinstance(c, ast.Call) and isinstance(c.func, ast.Attribute) and c.func.attr == "writeH5Dataset"]
-    by_stmt_block = {}
-    for c in writes:
+def _is_write(c):
+    return isinstance(c, ast.Call) and isinstance(c.func, ast.Attribute) and c.func.attr == "writeH5Dataset"
+
+
+def _arith(v):
+    return all(isinstance(n, (ast.Name, ast.Constant, ast.BinOp, ast.UnaryOp, ast.operator, ast.unaryop, ast.expr_context)) for n in ast.walk(v))
+
+
+def restart_bookkeeping(chk, fn):
+    KD = dict(file=U.DRIVER, func="main")
+    D = _Defs(fn)
+    used = {n.id for n in _own_walk(fn) if isinstance(n, ast.Name) and isinstance(n.ctx, ast.Load)}
+    hidden = [h for h in ast.walk(fn) if isinstance(h, ast.FunctionDef) and h is not fn and any(_is_write(c) for c in ast.walk(h))
+              and h.name in used]          # a local function that writes checkpoints and could not be written back at its calls
+    writes = [c for c in _own_walk(fn) if _is_write(c)]
+    loops = [n for n in _own_walk(fn) if isinstance(n, ast.While) and any(_is_write(c) for c in ast.walk(n))]
+    # ---- roles: G, T = grid and time returned by the set-up; loop; TI = step index
+    setups = [n for n in _own_walk(fn) if isinstance(n, ast.Assign) and isinstance(n.value, ast.Call) and _fname(n.value) in
+              ("setupFromFile", "setupCylindricalGrid") and isinstance(n.targets[0], ast.Tuple) and len(n.targets[0].elts) == 3]
+    T = G = None
+    if setups and len({src(n.targets[0]) for n in setups}) == 1 and any(_fname(n.value) == "setupFromFile" for n in setups):
+        G, T = src(setups[0].targets[0].elts[0]), src(setups[0].targets[0].elts[2])
+    lp = loops[0] if len(loops) == 1 else None
+    TI = TN = None
+    incs = {}
+    if lp is not None:
+        for k, st in enumerate(lp.body):
+            inc = increment_of(st)
+            if inc:
+                incs.setdefault(inc[0], []).append((k, inc[1]))
+        conj = lp.test.values if isinstance(lp.test, ast.BoolOp) and isinstance(lp.test.op, ast.And) else [lp.test]
+        for c in conj:
+            if isinstance(c, ast.Compare) and len(c.ops) == 1 and isinstance(c.ops[0], (ast.Lt, ast.LtE, ast.Gt, ast.GtE)):
+                a, b = c.left, c.comparators[0]
+                if isinstance(c.ops[0], (ast.Gt, ast.GtE)):
+                    a, b = b, a
+                if isinstance(a, ast.Name) and a.id in incs:
+                    TI, TN, strict = a.id, b, isinstance(c.ops[0], (ast.Lt, ast.Gt))
+
+    # ---- the index resumes from the loaded time
+    ok = bad = None
+    if T is not None and TI is not None and T in incs:
+        step = D.resolve(incs[T][0][1])
+        init = [d for d in D.defs.get(TI, []) if d[0] is not None and _pos(d[1]) < _pos(lp)]
+        tre = [d for d in D.defs.get(T, []) if d[1] not in setups and _pos(d[1]) < _pos(lp)]
+        if tre and not all(isinstance(d[0], ast.Constant) for d in tre):
+            pass                    # recomputed from something: cannot decide
+        elif tre:
+            bad = (f"the time returned by the set-up is overwritten before the loop (`{src(tre[0][1])[:60]}`): a restarted run does not "
+                   "resume at the checkpoint's time")
+        elif len(init) == 1:
+            v = init[0][0]
+            while isinstance(v, ast.Call) and _fname(v) in ("int", "round") and len(v.args) == 1:
+                v = v.args[0]
+            if isinstance(v, ast.Constant):
+                bad = (f"the step index starts at the constant {v.value!r} instead of being derived from the loaded time: after a restart "
+                       "the save steps and the end of the run are counted from 0 again")
+            elif isinstance(v, ast.BinOp) and isinstance(v.op, (ast.FloorDiv, ast.Div)) and src(v.left) == T:
+                if src(D.resolve(v.right)) == src(step):
+                    tn = D.resolve(TN)
+                    while isinstance(tn, ast.Call) and _fname(tn) in ("int", "round") and len(tn.args) == 1:
+                        tn = tn.args[0]
+                    if isinstance(tn, ast.BinOp) and isinstance(tn.op, (ast.FloorDiv, ast.Div)) and src(D.resolve(tn.right)) == src(step):
+                        ok = True
+                else:
+                    bad = (f"the step index is `{src(init[0][1])[:60]}` but the time advances by `{src(step)}` per step: index and time "
+                           "disagree after a restart")
+    chk.pat("W3-restart-index", fn, "ti = t // dt from the loaded time", ok, "the time index resumes from the time returned by the set-up "
+            "(0 for a new run, the checkpoint's time for a restart), in units of the step by which the time advances", bad, **KD)
+
+    # ---- one step: time and index advance together, once, unconditionally
+    ok = bad = None
+    if lp is not None and T is not None and TI is not None:
+        def stores(nm):
+            return [n for n in ast.walk(lp) if isinstance(n, ast.Name) and n.id == nm and isinstance(n.ctx, ast.Store)]
+        for nm, what in ((T, "time"), (TI, "step index")):
+            top = incs.get(nm, [])
+            if len(stores(nm)) != 1 or len(top) != 1:
+                bad = bad or (f"the {what} `{nm}` is assigned {len(stores(nm))} time(s) in the loop, {len(top)} of them an unconditional "
+                              "increment at the top level of the body: time and index no longer advance together once per step")
+        if not bad:
+            one = incs[TI][0][1]
+            if not _is_const(one, 1):
+                bad = f"the step index advances by `{src(one)}` per step, not by 1"
+            elif not strict:
+                bad = (f"the loop runs while `{TI} <= {src(TN)}`: one step more than the end time asks for, so N+M split steps differ "
+                       "from an unsplit run")
+            else:
+                ok = True
+    chk.pat("W3-restart-index", lp if lp is not None else fn, "one step: t += dt, ti += 1", ok,
+            "time and time index advance together, once per iteration, top-level in the loop body", bad, **KD)
+
+    # ---- save steps: decided by evaluating the conditions for all small (interval, restart step, number of steps)
+    ok = bad = None
+    if lp is not None and TI is not None and not hidden:
+        ok, bad = _save_steps(fn, D, lp, TI, incs, writes)
+    chk.pat("W3-save-steps", fn, "save when ti % saveStep == saveStep-1; final save when ti % saveStep != 0", ok,
+            "as congruences on the global step index: the regular save fires when the index of the completed step is a multiple of the "
+            "interval, the final flush when the index reached is not (same index, same modulus): the last state is always on disk",
+            bad, **KD)
+
+    # ---- both grids are written with the same time at every save site
+    ok = bad = None
+    if G is not None and T is not None and not hidden and len(writes) >= 2:
+        sites = {}
+        for c in writes:
+            st = c
+            while not isinstance(st, ast.stmt):
+                st = parent(st)
+            sites.setdefault(id(parent(st)) if not isinstance(parent(st), ast.FunctionDef) else (id(parent(st)), tuple(
+                (src(t), p) for t, p, k in guards_of(st))), []).append(c)
+        good = 0
+        for blk in sites.values():
+            rows = []
+            for c in blk:
+                conv = _arg(c, 2, "nameConvention")
+                rows.append((src(c.func.value), src(_arg(c, 0, "foldername")), src(_arg(c, 1, "time")),
+                             "grid" if conv is None else conv.value if _is_const(conv, typ=str) else None))
+            line = getattr(blk[0], "lineno", "?")
+            names = [r_[3] for r_ in rows]
+            if None in names:
+                continue
+            if sorted(names) == ["grid"] or sorted(names) == ["phi"]:
+                bad = bad or (f"the save site at line {line} writes only '{names[0]}': distribution function and potential are no longer "
+                              "checkpointed together")
+            elif len(set(names)) < len(names):
+                bad = bad or (f"the save site at line {line} writes two grids under the name '{names[0]}': the second overwrites the first")
+            elif sorted(names) == ["grid", "phi"]:
+                g = [r_ for r_ in rows if r_[3] == "grid"][0]
+                p = [r_ for r_ in rows if r_[3] == "phi"][0]
+                if g[0] != G:
+                    bad = bad or f"the file 'grid' at line {line} is written from `{g[0]}`, not from the distribution function `{G}`"
+                elif g[2] != p[2] or g[1] != p[1]:
+                    bad = bad or f"the two grids at line {line} are written with different folder/time (`{g[1]}, {g[2]}` / `{p[1]}, {p[2]}`)"
+                elif g[2] != T:
+                    bad = bad or (f"the checkpoints at line {line} are labelled with `{g[2]}`, not with the current time `{T}`: the restart "
+                                  "parses the label as the time to resume from")
+                else:
+                    good += 1
+        in_loop = any(any(x is c for x in ast.walk(lp)) for c in writes) if lp is not None else False
+        after = any(_pos(c) > _pos(lp) and not any(x is c for x in ast.walk(lp)) for c in writes) if lp is not None else False
+        if not bad and good == len(sites) and in_loop and after:
+            ok = True
+    chk.pat("W3-save-steps", fn, "every save writes grid_<t> and phi_<t> with the same t", ok,
+            "the distribution function and the potential are checkpointed together with the current time", bad, **KD)
+
+
+def _linear(e):
+    """v | v + c | c + v | v - c  -> (v, c)"""
+    if isinstance(e, ast.Name):
+        return e.id, 0
+    if isinstance(e, ast.BinOp) and isinstance(e.op, (ast.Add, ast.Sub)):
+        if isinstance(e.left, ast.Name) and _is_const(e.right, typ=int):
+            return e.left.id, e.right.value if isinstance(e.op, ast.Add) else -e.right.value
+        if isinstance(e.op, ast.Add) and isinstance(e.right, ast.Name) and _is_const(e.left, typ=int):
+            return e.right.id, e.left.value
+    return None
+
+
+def _mod_condition(test):
+    """`(v + off) % M == R` / `!= R` / `> 0` / truth value, R = c or M - c
+    -> (v, off, M, a, sense): the test is true  iff  v + off  ≡ a  (mod M)  [sense 'eq'] or not so [sense 'ne'];
+    `a` is (c, in_range) where in_range tells for which M the written residue can occur at all (None = every M >= 1, else text)"""
+    sense = "eq"
+    while isinstance(test, ast.UnaryOp) and isinstance(test.op, ast.Not):
+        test, sense = test.operand, ("ne" if sense == "eq" else "eq")
+    lhs = rhs = None
+    if isinstance(test, ast.BinOp) and isinstance(test.op, ast.Mod):
+        lhs, rhs, sense = test, ast.Constant(value=0), ("ne" if sense == "eq" else "eq")
+    elif isinstance(test, ast.Compare) and len(test.ops) == 1:
+        a, b, op = test.left, test.comparators[0], test.ops[0]
+        if not (isinstance(a, ast.BinOp) and isinstance(a.op, ast.Mod)) and isinstance(b, ast.BinOp) and isinstance(b.op, ast.Mod) \
+                and isinstance(op, (ast.Eq, ast.NotEq)):
+            a, b = b, a
+        if isinstance(a, ast.BinOp) and isinstance(a.op, ast.Mod):
+            if isinstance(op, ast.Eq):
+                lhs, rhs = a, b
+            elif isinstance(op, ast.NotEq) or (isinstance(op, ast.Gt) and _is_const(b, 0)):
+                lhs, rhs, sense = a, (b if isinstance(op, ast.NotEq) else ast.Constant(value=0)), ("ne" if sense == "eq" else "eq")
+    if lhs is None or not isinstance(lhs.right, ast.Name):
+        return None
+    lin = _linear(lhs.left)
+    if lin is None:
+        return None
+    M = lhs.right.id
+    if _is_const(rhs, typ=int) and not isinstance(rhs.value, bool):
+        c = rhs.value
+        rng = None if c == 0 else f"{M} > {c}" if c > 0 else "no value"
+        return lin[0], lin[1], M, (c, rng), sense
+    if isinstance(rhs, ast.Name) and rhs.id == M:
+        return lin[0], lin[1], M, (0, "no value"), sense           # x % M == M never holds
+    if isinstance(rhs, ast.BinOp) and isinstance(rhs.op, ast.Sub) and isinstance(rhs.left, ast.Name) and rhs.left.id == M \
+            and _is_const(rhs.right, typ=int):
+        c = rhs.right.value
+        rng = None if c == 1 else (f"{M} >= {c}" if c > 1 else "no value")
+        return lin[0], lin[1], M, (-c, rng), sense
+    return None
+
+
+def _save_steps(fn, D, lp, TI, incs, writes):
+    """the two save conditions as congruences on the global step index -> (ok, bad)"""
+    def site_test(c, stop):
+        gs = guards_of(c, stop=stop)
+        if len(gs) != 1 or gs[0][2] != "if":
+            return None
+        t = D.resolve(gs[0][0], only=_arith)
+        if not gs[0][1]:
+            t = ast.UnaryOp(op=ast.Not(), operand=t)
+        return t
+    in_loop = [c for c in writes if any(x is c for x in ast.walk(lp))]
+    after = [c for c in writes if _pos(c) > _pos(lp) and not any(c is x for x in in_loop)]
+    if not in_loop or not after:
+        return None, None
+
+    def top_index(c):
         st = c
-        while not isinstance(st, ast.stmt):
+        while parent(st) is not lp:
             st = parent(st)
-        by_stmt_block.setdefault(id(parent(st)), []).append(c)
-    ok4 = len(writes) == 6
-    for blk in by_stmt_block.values():
-        sigs = sorted((src(c.func.value), [src(a) for a in c.args]) for c in blk)
-        if sigs != [("distribFunc", ["foldername", "t"]), ("phi", ["foldername", "t", "'phi'"])]:
-            ok4 = False
-    chk.ob("W3-save-steps", fn, "every save writes grid_<t> and phi_<t> with the same t", ok4,
-           "the distribution function and the potential are checkpointed together with the current time" if ok4 else
-           "a save site does not write both grids with the current time", file=U.DRIVER, func="main")
+        return lp.body.index(st)
+    k_save = {top_index(c) for c in in_loop}
+    if len(k_save) != 1:
+        return None, None
+    k_save = k_save.pop()
+    lt, ft = site_test(in_loop[0], lp), site_test(after[0], fn)
+    if lt is None or ft is None or any(site_test(c, lp) is None or src(site_test(c, lp)) != src(lt) for c in in_loop) \
+            or any(site_test(c, fn) is None or src(site_test(c, fn)) != src(ft) for c in after):
+        return None, None
+    lc, fc = _mod_condition(lt), _mod_condition(ft)
+    if lc is None or fc is None:
+        return None, None
+    # run-local counters: 0 before the loop, +1 per iteration
+    local = set()
+    for nm, lst in incs.items():
+        init = [d for d in D.defs.get(nm, []) if _pos(d[1]) < _pos(lp)]
+        if nm != TI and len(lst) == 1 and _is_const(lst[0][1], 1) and len(init) == 1 and _is_const(init[0][0], 0):
+            local.add(nm)
+    for (v, off, M, (a, rng), sense), where, text in ((lc, "regular (in-loop) save", src(lt)), (fc, "final flush after the loop", src(ft))):
+        if v in local:
+            return None, (f"the {where} is decided by `{text}`, i.e. by `{v}`, the number of steps of THIS invocation, while the checkpoints "
+                          f"are aligned on the global step index `{TI}`. In a restarted run {v} = {TI} - k0 (k0 = step of the restart): "
+                          f"whenever k0 is not a multiple of {M} the two disagree, e.g. restart at step 1 with {M} = 2 and 2 more steps: the "
+                          f"run stops at step 3, {v} % {M} == 0 so nothing is flushed, and the newest checkpoint on disk is that of step 2 "
+                          "(an unsplit run of 3 steps ends with a checkpoint of step 3)")
+        if v != TI:
+            return None, None
+    if lc[2] != fc[2]:
+        return None, None
+    M = lc[2]
+    # in-loop: index after the step w = TI + shift; the test says TI + off ≡ a, i.e. w ≡ a - off + shift
+    shift = 1 if incs[TI][0][0] > k_save else 0
+    v, off, _, (a, rng), sense = lc
+    t = a - off + shift
+    if sense != "eq":
+        return None, (f"the regular save is skipped exactly on the steps selected by `{src(lt)}`")
+    if rng is not None:
+        return None, (f"the regular save condition `{src(lt)}` " + ("can never hold (a remainder is smaller than the modulus):" if rng == "no value"
+                      else f"can only hold for {rng}: for the other save intervals (e.g. {M} = 1)") + " no regular checkpoint is ever written")
+    if t != 0:
+        return None, (f"the regular save `{src(lt)}` fires when the index of the completed step is ≡ {t} (mod {M}), not at the multiples "
+                      f"of {M}: e.g. with {M} = {abs(t) + 1} the checkpoints are not those of an unsplit run and do not match the final-flush test")
+    v, off, _, (a, rng), sense = fc
+    t = a - off
+    if t == 0 and rng is None and sense == "ne":
+        return True, None
+    if t == 0 and rng is None and sense == "eq":
+        return None, (f"the final flush `{src(ft)}` writes exactly when the last step was a save step and skips it otherwise: the state of "
+                      "the last steps is lost")
+    return None, (f"the final flush `{src(ft)}` is not `{TI} % {M} != 0`: it tests the residue {t} (mod {M}), so a run that stops between "
+                  "two regular saves may not write its final state (or writes it twice)")
 
 
 def run(chk):
     chk.explanation = (
-        "Writer/reader agreement of the checkpoint format (dataset path, Layout attribute, hyperslab by the layout's starts/ends on "
-        "write and on both read paths, layout guard), the file-name family (fixed-width time field: format, glob, parser, "
-        "lexicographic max = latest; 'latest' only when no time is requested), the constants round trip (property setters commute, "
-        "defaults applied after the file, dependency-ordered deferral), the driver's zero-divisor and restart book-keeping "
-        "(ti = t//dt, t and ti advance together, save-step conditions, both grids written with the same t). Bit-exact HDF5 round "
-        "trip and equality of split and unsplit runs are history-level/numerical and are not decided. Collective matching of "
-        "the parallel-HDF5 calls and setupSave is decided by C06.")
+        "Writer/reader agreement of the checkpoint format on expressions with local definitions written out (dataset path, Layout "
+        "attribute, hyperslab by the layout's starts/ends on write and on both read paths, layout guard, stored-layout look-up, "
+        "setLayout to the requested layout); the file-name protocol decided by running writer, loader and restart set-up in a small "
+        "interpreter on a model directory (names distinct and ordered like times, latest = largest time for any directory order and "
+        "file dates, requested time honoured including 0, time parsed back, parameter-file name); the constants round trip (setters' "
+        "write sets commute, printer run on a model object and parsed as JSON, defaults after the file, deferral of unset operands); "
+        "the driver's zero divisors (flow analysis), restart index and the save conditions evaluated for all small (interval, restart "
+        "step, steps). Bit-exact HDF5 round trip and equality of split and unsplit runs are history-level/numerical and are not "
+        "decided. Collective matching of the parallel-HDF5 calls and setupSave is decided by C06.")
     chk.in_file(U.GRID)
+    props = {m.name for m in chk.mod(U.LAYOUT).cls("Layout").body if isinstance(m, ast.FunctionDef)
+             and any(src(d) == "property" for d in m.decorator_list)}
+    if not {"starts", "ends", "fullShape", "dims_order", "shape"} <= props:
+        raise AnalysisError("C18: Layout no longer has the properties starts/ends/fullShape/dims_order/shape the W1 rules are written against")
+    LAYOUT_PROPS.clear()
+    LAYOUT_PROPS.update(props)
     hdf5_agreement(chk)
     file_names(chk)
     constants_round_trip(chk)
-    zero_divisors(chk)
-    restart_bookkeeping(chk)
-    chk.floor("W1-", 7)
-    chk.floor("W2-", 6)
-    chk.floor("G3-", 8)
+    main = _work(chk.func(U.DRIVER, "main"))
+    zero_divisors(chk, main)
+    restart_bookkeeping(chk, main)
+    chk.floor("W1-", 5)
+    chk.floor("W2-", 5)
+    chk.floor("G3-", 6)
     chk.floor("G4-zero-divisor", 1)
+    chk.floor("W3-", 3)
